@@ -12,114 +12,551 @@ Definition show_fres (r : fres) : string :=
   end.
 Definition check (rs : list rune) : string := digest (show_fres (format_res rs)).
 Definition full (rs : list rune) : string := show_fres (format_res rs).
-Eval vm_compute in ("<<<M8>>>" ++ check (runes_of_ascii "MetaData string_{
-} packet
-    Packet
-// c
-// c
-{
-    // @lengthOf(
-    zchar[ 65535 ]	metadata  ,} MetaData  body { u
-    packetx ,
-char[] roots `" ++ [233]%N ++ runes_of_ascii "`,
-i32 Header , uint32
-    packetx /// triple
-,	} packet Foo  { @rightPad ()
-match crc
-    as u128{ // c
-""it's"":	As , 0
-    :x_y_z , """"
-:
-msg_type } // @lengthOf(
-, match pack
-as	x_y_z {255: msg_type , } , i8 A , int8 BodyLength
-@lengthOf( tag ) , @calculatedFrom( ""CRC32""
-) match int as Header {
-4294967296	: x_y_z ,
-    // @lengthOf(
-    }	, match
-chars	as // a // b
-calculatedFrom {  [0 ,
-0
-, // c
-1 , 0123456789 , 00 // c
-, ""a\""b""	,// `tick` ""quote"" 'q'
-4294967296 ]:
-stringy
-    ,""`tick`"" : T }, @tag( 0 )@tag(
-    1 )
-@lengthOf(u8x ) u8x {  body
-    , repeat// trailing space 
-calculatedFrom x_y_z `two words` ,  } , match  falsey
-as leftPad {	007	:  A, [""" ++ [28040; 24687]%N ++ runes_of_ascii """ ] : tag ,
-1:
-    //
-    Pad ,}
-    , // c
-float64
-repeatCount , @tag(10 ) match stringy
-    as
-Logon {7:
-Pad, }	, }
-    packet Packet {
-@calculatedFrom( ""\n"" ) @calculatedFrom( ""`tick`"" ) matchKey
-, @lengthOf( zchar )
-roots	{repeat i16 Z9_, match
-    repeatCount as
-stringy { [ ""x y""
-    ]:packetx	, [""" ++ [128512]%N ++ runes_of_ascii """ , ""x y""	, ""\n"" ] : crc , },}
-// `tick` ""quote"" 'q'
-//x
-, // packet A { u8 x, }
-match // trailing space 
-tag as
-a1 // " ++ [128512]%N ++ runes_of_ascii " emoji
-{ ""abc"": packetx 1
-: u8x 1 : body
-007 : leftPad
-0123456789
-    :Header} ,
-i16 x_y_z
-    ,@calculatedFrom( ""{,}""
-    )o `it's` , string_@calculatedFrom( ""it's"" ) `crlf
-line` , match i8i8 as lengthOf
-    { [ 1 , ""a\\"" ,
-    42 ,""""  ,
-""a\\"" ]
-    // " ++ [128512]%N ++ runes_of_ascii " emoji
-    : o , 10
-    :
-Foo //x
-[7 ]:// trailing space 
-lengthOf , } ,repeat
-    A { repeat T { char[
-    007
-    //x
-    ] i64_ @lengthOf( Packet
-    // a // b
-    ) ,
-    match T as repeatCount // " ++ [27880; 37322]%N ++ runes_of_ascii "
-{  ""x y"" :
-As
+Eval vm_compute in ("<<<M4482>>>" ++ check (runes_of_ascii "  options
+	{
+
+LittleEndian = true
+	; ArrayPrefixLenType =
+
+    u8
+;
+FixedStringPadChar
+
+    ='0'
+    ;
+	JavaPackage =""com.example.msg""
+	;  GoPackage
+	=
+	""msg""	; GoModule= ""example.com/msg""
+
+    ;
+}MetaData Meta
+
+    { 
+u32
+    SeqNum
+    `sequence number` ,
+
+    char[
+8]  Symbol  `symbol`,
+
+    zchar[5 ]
+ZSym
+`z symbol`
+    , string
+
+Note ,
+Symbol	AltSymbol
+	`alias of symbol`, f64
+	Price
+
 ,
-    } , repeat metadata, msg_type
+
+}
+packet  Inner
+
+    { 
+u8	a
+    ,  i16
+	b
+
+, string
+
+c
+	,
+}packet
+
+    Inner2{u8
+
+a2 ,	char[
+	3  ]
+
+    c2  , }
+packet
+Logon { u8 x , 
+string user ,
+    repeat	u16	codes	, }
+packet  Logout{u16
+reason , }	packet
+	Empty { }root
+
+packet Msg{
+u8
+	su8
+,uint8
+
+luint8
+
+    ,
+u16 su16 , uint16
+
+luint16
+,  u32	su32,
+	uint32
+    luint32,
+	u64
+su64 
+, 
+uint64
+
+    luint64
+,
+
+    i8 si8 
+,
+
+int8
+	lint8	,i16
+    si16
+
+,	int16
+
+lint16
+
+,
+    i32
+si32 ,	int32
+    lint32
+    , i64
+	si64,
+int64
+lint64 ,
+	f32
+
+    sf32,  float32
+lfloat32,
+f64  sf64,
+
+float64  lfloat64 ,
+	char[ 6 ]fsplain 
+,
+@leftPad  (
+'0' 
+)char[
+	4	] fs0
+,@rightPad( '0'
+    ) char[ 5 ]
+fs1
+,@leftPad (
+	' ')
+	char[
+6
+	] 
+fs2
+    , @rightPad (
+    ' '  )char[7
+	]
+fs3	,@leftPad	(
+	'\x00'
+    ) 
+char[ 8 ] fs4
+,
+	@rightPad ('\x00')char[	9]
+
+fs5
+	,
+
+    @leftPad
+
+(
+	)
+    char[ 10
+
+    ]  fs6
+,  @rightPad
+
+(  )	char[
+
+11 
+]
+fs7
+
+, zchar[
+7
+
+    ] fz  , 
+@leftPad  ('0' 
+)  zchar[
+3 ]
+
+    fzl0 , 
+string  s1  `doc`,  char[]
+    s2
+	,  Inner,  Sub	{	u8
+q
+
+    ,string
+w
+    , Deep{  u16 z ,
+repeat  i32	zs 
+,
+},
+}	,
+	repeat  u8 
+ru8
+,
+	repeat
+    u16
+    ru16 
+,repeat u32
+	ru32,
+	repeat
+
+    u64
+
+ru64 , repeat
+	i8
+
+ri8
+,
+	repeat i16
+ri16
+,
+
+repeat i32 ri32
+    , 
+repeat
+i64
+	ri64
+
+    ,
+	repeat
+
+f32 rf32
+, 
+repeat
+f64
+    rf64
+
+, repeat
+string
+	rstr
+
+    ,
+	repeat
+
+char[]
+rstr2 
+,
+
+repeat 
+char[  3
+    ]
+rfs , repeat
+zchar[ 
+3  ]
+
+rfz,  repeat
+    Inner2 
+,
+    repeat	Grp {
+
+u8 k,
+char[	2	] v, }  ,
+
+SeqNum 
+, 
+SeqNum
+	seq2 , repeat	SeqNum	seqs
+,Symbol
+
+,
+AltSymbol
+	alt ,ZSym
+
+, Note
+
+, 
+repeat
+Symbol 
+syms
+	,Price 
+px ,
+
+u16
+MsgType , u32 
+BodyLen	@lengthOf(Body)
+	,match 
+MsgType
+as	Body{
+    1:
+
+    Logon ,[ 2
+	,
+3
+	]:
+	Logout
+, 7	:Logon 
+,9 :  Empty
+	,
+
+}  ,
+u32 Checksum 
+@calculatedFrom(""CRC32""
+	),
+
+    }
+")).
+Eval vm_compute in ("<<<M1123>>>" ++ check (runes_of_ascii "packet packetx
+{ @tag( 00)
+    float32
+// `tick` ""quote"" 'q'
+//
+calculatedFrom ,packetx ,BodyLength , @calculatedFrom( ""1"" )
+//
+//	t
+char[65535 ]Foo ,
+    repeat char[ 3 ] x_y_z,
+@calculatedFrom( """ ++ [128512]%N ++ runes_of_ascii """ ) repeat// " ++ [128512]%N ++ runes_of_ascii " emoji
+Pad ,	@rightPad
+( ' ') char[]
+pack
+    `line1
+line2`,u8x
+, // c
+int32 packetx , falsey, }
+    packet asx//	t
+{} packet i8i8 { char[ //
+0123456789]charz @lengthOf(_x	)
+, repeat repeatCount`u8 x,` , repeat options1 ,
+x , @lengthOf( As	) match pack // 50% %s
+as BodyLength{ /// triple
+""1"" :
+    tag , [ 65535 ] : msg_type ,
+[
+    // @lengthOf(
+    ""`tick`"" // 50% %s
+]
+:falsey
+    ,""// no comment""// " ++ [128512]%N ++ runes_of_ascii " emoji
+: u128 , },match
+len
+as	Z9_ { [ ""a	b"" ,	10 ]
+:
+    Foo
+,255
+: int ,
+    0123456789
+: tag , 1
+/// triple
+// c
+:metadata,
+[ 00
+, 4294967296,
+    """ ++ [28040; 24687]%N ++ runes_of_ascii """
+    ] : // " ++ [128512]%N ++ runes_of_ascii " emoji
+roots,[ 42,4294967296 ,10 , 00 , 4294967296]	: int,} ,@calculatedFrom( ""{,}""
+) // 50% %s
+repeat // " ++ [27880; 37322]%N ++ runes_of_ascii "
+_x {tag `` // @lengthOf(
+, // a // b
+}
+, @lengthOf(  BodyLength )zchar
+    @lengthOf(msg_type) `" ++ [233]%N ++ runes_of_ascii "` , match string_
+as zchar { 42 : MetaDataX	, [ ""abc"" ,
+""\" ++ [233]%N ++ runes_of_ascii """]
+//	t
+// a // b
+:tag 007 : charz// 50% %s
+, [ """"
+    ,
+""// no comment"" ] : u128 , [ ""1"", """ ++ [128512]%N ++ runes_of_ascii """ ]
+    // packet A { u8 x, }
+    : Foo , } ,
+} packet _x { A {
+    Z9_
+    // trailing space 
+    @lengthOf(
+    u) , },@lengthOf(	T
+// packet A { u8 x, }
+// " ++ [27880; 37322]%N ++ runes_of_ascii "
+) @tag( 00 // trailing space 
+)
+    char[] i8i8
+    @lengthOf( f32a )
+, repeat Z9_{
+lengthOf { rootA ,	repeat len i8i8	`// not a comment` , // packet A { u8 x, }
+i8i8 @lengthOf( string_  )
+/// triple
+// " ++ [27880; 37322]%N ++ runes_of_ascii "
+`" ++ [28040; 24687; 31867; 22411]%N ++ runes_of_ascii "` // 50% %s
+, char[ 10 ] chars`two words`
+, },repeat string o//	t
+, }
+,  crc@calculatedFrom(""1"" ) , //
+} packet Foo { @calculatedFrom(//x
+""\" ++ [233]%N ++ runes_of_ascii """ )
+pack u128 // 50% %s
+`tab	here`,
+    /// triple
+    int64 lengthOf
+@calculatedFrom( ""// no comment""	) `a\` , match// `tick` ""quote"" 'q'
+MetaDataX
+    as roots
 {
-float64//
-float , i8 o`u8 x,` // " ++ [27880; 37322]%N ++ runes_of_ascii "
-,char[
-0 ]	A @calculatedFrom(
-""1""
-    )
-    `two words` //	t
-, i8 body
-    @lengthOf( Packet), } ,//
-} ,rootA{
-f32a
-@lengthOf( pack
-    ), }, repeat char[] u , }
+    0 : a1 , } , }
+")).
+Eval vm_compute in ("<<<M821>>>" ++ check (runes_of_ascii "
+packet trueish { pack@calculatedFrom( ""1""), zchar[
+    0 ]
+u8x@calculatedFrom( """ ++ [128512]%N ++ runes_of_ascii """ ) , options1
+@lengthOf( stringy )  `// not a comment` , @calculatedFrom( ""1"" )
+char[ 4294967296 ] uint8x@lengthOf( int	) `
+`// `tick` ""quote"" 'q'
+,@calculatedFrom(""\" ++ [233]%N ++ runes_of_ascii """ )	uint8
+Pad `say ""hi""` ,	crc
+    Z9_  , @calculatedFrom(
+    ""`tick`""
+)repeat zchar[
+1] u
+`
+` ,  match BodyLength
+as uint8x { ""CRC32""//x
+: a1
+, }
+,
+@calculatedFrom( ""`tick`"" )
+// c
+// " ++ [128512]%N ++ runes_of_ascii " emoji
+@rightPad
+(
+    ) u32
+len ,
+    @calculatedFrom( ""1"" )MetaDataX Header `// not a comment`
+    , }
+MetaData uint8x
+    // `tick` ""quote"" 'q'
+    { } packet
+Logon { match //x
+int // @lengthOf(
+as string_ {
+    00 : leftPad , }	, @lengthOf(repeatCount )
+    i64_ @calculatedFrom(
+//x
+//	t
+""\n""	) `tab	here` ,lengthOf @calculatedFrom(
+""it's""	) `line1
+line2` ,T { repeat zchar[ 3]
+    string_, match T as	stringy {
+    // @lengthOf(
+    4294967296:
+A
+    //	t
+    ,  4294967296
+:	msg_type
+    , 7 :msg_type
+,
+    // trailing space 
+    0 : chars,
+1  :
+asx , 0 :
+// 50% %s
+// a // b
+float
+    , } ,
+// a // b
+// c
+Pad @lengthOf( len )
+, }	, BodyLength
+    @calculatedFrom(
+// " ++ [27880; 37322]%N ++ runes_of_ascii "
+//x
+""" ++ [128512]%N ++ runes_of_ascii """ ) , repeat // a // b
+Logon , x {
+match  stringy as Header {
+    // c
+    [ ""abc"" ] :i64_ ,255: f32a }
+// " ++ [128512]%N ++ runes_of_ascii " emoji
+// `tick` ""quote"" 'q'
+,
+} , uint32
+u8x ,  uint32 int , } MetaData
+BodyLength  { i8i8 Logon `crlf
+line`
+,int
+// " ++ [128512]%N ++ runes_of_ascii " emoji
+// @lengthOf(
+options1 `say ""hi""`, Foo
+tag
+//	t
+// `tick` ""quote"" 'q'
+, }root
+    packet lengthOf{repeat zchar[ 255 ] lengthOf`// not a comment` // " ++ [128512]%N ++ runes_of_ascii " emoji
 , }
 ")).
-Eval vm_compute in ("<<<M379>>>" ++ check (runes_of_ascii "options {
+Eval vm_compute in ("<<<M1257>>>" ++ check (runes_of_ascii "MetaData matchKey { // packet A { u8 x, }
+asx Packet , roots	u128	, rootA options1 ,
+char[ 007 ]
+    // `tick` ""quote"" 'q'
+    chars
+    `line1
+line2` ,x_y_z metadata
+    /// triple
+    , zchar[/// triple
+00// " ++ [27880; 37322]%N ++ runes_of_ascii "
+]
+Foo  `line1
+line2`,} packet
+lengthOf
+    { }packet Packet // packet A { u8 x, }
+{@lengthOf(MetaDataX )repeat rootA
+    // " ++ [128512]%N ++ runes_of_ascii " emoji
+    { tag
+{ match
+charz as pack { ""abc""
+    : lengthOf , } , string
+options1	, T
+{ repeat char[ 1 ] Header`tab	here` , Packet
+, i64
+crc @calculatedFrom(  ""a\\"")`doc`
+    // a // b
+    , string x// a // b
+, //
+} ,	i8 lengthOf
+    `100% of %d`, } ,
+} , u32 stringy , u128 { zchar[ 0123456789] falsey , packetx `// not a comment` ,
+}
+, @calculatedFrom( ""x y"" )
+repeat	int T	`u8 x,` , zchar[ 255 ]
+zchar `" ++ [28040; 24687; 31867; 22411]%N ++ runes_of_ascii "` // packet A { u8 x, }
+, @tag(
+0 ) match Packet as a1
+{ [  10 ,
+    ""x y""
+    , 007 // " ++ [128512]%N ++ runes_of_ascii " emoji
+,
+7
+    // @lengthOf(
+    ,0 ] : rootA, ""a\""b""  :rootA , """ ++ [28040; 24687]%N ++ runes_of_ascii """
+    : calculatedFrom
+,
+""\n"" : u8x
+[
+    0123456789 ,
+""" ++ [233]%N ++ runes_of_ascii "t" ++ [233]%N ++ runes_of_ascii """
+,
+    10 ,""{,}"" ,
+""\n"" ,
+    //x
+    0
+    ]: options1 , }//
+,
+    // " ++ [128512]%N ++ runes_of_ascii " emoji
+    i64_ { char[7 ] A // a // b
+, repeat msg_type ,}
+    , repeat
+    i32 int , // c
+repeat As ,
+float Logon `100% of %d`	,
+//
+// trailing space 
+} packet	T { f64// c
+len ,
+@lengthOf(
+x_y_z
+    ) repeat char[ 0 ] i8i8	`100% of %d` , @calculatedFrom( ""abc"" )  repeat i16
+u , }")).
+Eval vm_compute in ("<<<M1405>>>" ++ check (runes_of_ascii "options {
 	StringPrefixLenType = u16;
 	ArrayPrefixLenType = u16;
 }
@@ -183,1006 +620,1901 @@ packet Detail {
     string RuleName `" ++ [35268; 21017; 21517; 31216]%N ++ runes_of_ascii "`,
     u16 Code `" ++ [21407; 22240; 20195; 30721]%N ++ runes_of_ascii "`,
 }")).
-Eval vm_compute in ("<<<M110>>>" ++ check (runes_of_ascii "//	t
-packet// `tick` ""quote"" 'q'
-crc {@tag( /// triple
-10
-) uint16/// triple
-matchKey @calculatedFrom( ""\" ++ [233]%N ++ runes_of_ascii """ ) , @calculatedFrom(
-""x y"" )
-u16
+Eval vm_compute in ("<<<M4233>>>" ++ check (runes_of_ascii "root packet uint8x {
+}
+
+packet i8i8 {
+    @lengthOf(x_y_z)
+    // 50% %s
+    //x
+    char[] BodyLength @calculatedFrom(""a\\"") `crlf
+        line`,
+    @tag(1)
+    tag {
+        match repeatCount as repeatCount {
+            ""a	b"" : body,
+        },
+    },
+    x_y_z @lengthOf(trueish),
     // a // b
-    Packet  @calculatedFrom(""" ++ [233]%N ++ runes_of_ascii "t" ++ [233]%N ++ runes_of_ascii """) ,string Pad
-    // @lengthOf(
-    @lengthOf(  roots) ,//x
-@tag( 42 ) repeat float{
-    match
-    // @lengthOf(
-    roots
-//	t
-//
-as Z9_
-    { 42: packetx // c
-, } // a // b
-, Pad { pack , uint32 u, repeat Z9_ {
-    packetx
-float ,
-    } , uint64 msg_type
-    `it's` ,
-} ,Header`" ++ [233]%N ++ runes_of_ascii "`
-    , //	t
-char[]stringy ,}	, match // packet A { u8 x, }
-u as a1 //	t
-{ [ 7
-]// " ++ [27880; 37322]%N ++ runes_of_ascii "
-:	zchar
-    ,[255,""a\""b"",  0123456789 , 4294967296
-    ,
-1
-,
-    42, 0 ]
-:Foo
-    [  ""{,}"" ] : a1 , ""// no comment""
-    :
-A ,0
-    : u8x, 255 : Packet
-}	, repeat i64 chars ,
-repeat char[ 0123456789 ]repeatCount
-,
-body  Foo, @calculatedFrom(
-""\n""
-    )char[]
-int
-    @lengthOf(	len
-    )  , @tag( 3) char[]
-A
-`doc`
-    ,
-}
-packet a1  { @rightPad( '0'  )
-    // `tick` ""quote"" 'q'
-    float // a // b
-@lengthOf(
-stringy
-    ) `doc`
-,} options
-    {	As	= 7 crc = ""{,}""
-    u =""it's"" zchar= '\x00'
-}
-")).
-Eval vm_compute in ("<<<M1451>>>" ++ check (runes_of_ascii "  options
-
-    {	StringPrefixLenType  = 
-u32 
-;
-    ArrayPrefixLenType
-
-    =
-	u8
-
-    ; 
-FixedStringPadFromLeft = false
-
-    ;	}  packet
-
-    Logon
-	{ i8 venue
-,	int16
-
-f1	,	zchar[  8]
-
-Acct
-
-,
-repeat
-
-    InNote16{ InQty73
-
-{
-
-float32 tag7,
-    }
-
-    ,f32 Acct
-,
-
-    zchar[
-
-    5 ]
-
-sym 
-,}
-
-    ,uint16
-
-    Side2,
-
-i32
-
-lastPx  ,  }
-    packet Fill
-
-{repeat  InOrderid15 {
-
-    zchar[8]	sym  , repeat
-char[2 ]
-
-    OrderId,repeat  Logon ,
-	InQty82
-
-{ char[]
-Tail  , repeat Logon  ,  float64 
-price  ,f64 Side2,	}
-, char[  12
-	] venue
-, char[
-    4
-
-]	Px  ,
-    }
-	,@rightPad 
-('0'
-    )
-    char[2	]
-
-venue ,InPrice99{
-InAcct72 {
-u8
-pad0 
-, 
-},  u32 OrderId
-	, Logon
-
-,
-
-    }
-,
-
-    }root
-
-packet Reject
-{
-    zchar[
-
-9]
-    msgKind ,
-u32
-venue ,	u16
-seqNo  @lengthOf( 
-Body )
-,
-match	venue
-as Body{
-
-57 :  Fill 
-, 
-8 :
-
-    Logon ,} ,
-u16
-Tail @calculatedFrom(
-""CRC32""
-    ) , }
-")).
-Eval vm_compute in ("<<<M61>>>" ++ check (runes_of_ascii "  root packet pack {zchar[	255
-    ] T`a\`
-    , char[] Z9_ @lengthOf(
-// c
-//x
-u8x  )
-    `two words` , A
-{ repeat  char[]
-    x  ``,
-// @lengthOf(
-/// triple
-repeat zchar[ //
-007  ] i64_
-    ,  } , uint8x @lengthOf(
-    i64_
-    )	``,
-}
-packet	calculatedFrom{ @leftPad ( )
-u32	calculatedFrom``
-,
-@tag(0123456789 // " ++ [27880; 37322]%N ++ runes_of_ascii "
-)@leftPad ( ) int8 _x
-``
-,
-match rootA as  u { // c
-10
-: Z9_ , 0123456789: float
-//
-// c
-0: float ,
-[ ""it's""/// triple
-]
-:
-packetx , } ,// `tick` ""quote"" 'q'
-@lengthOf( string_ ) zchar[ 0123456789
-    ] body @lengthOf(
-repeatCount	) ,
-    @calculatedFrom( ""\n"" ) match // `tick` ""quote"" 'q'
-body as u8x{ ""a\""b""
-    :T , [ ""\n"" ,// " ++ [27880; 37322]%N ++ runes_of_ascii "
-""" ++ [233]%N ++ runes_of_ascii "t" ++ [233]%N ++ runes_of_ascii """, ""CRC32"", 255 ,7
-, ""// no comment""
-,
-    """ ++ [28040; 24687]%N ++ runes_of_ascii """] : x , 255	: packetx } , @tag(65535 ) repeat
-    // a // b
-    Header
-zchar , } MetaData Logon { }
-")).
-Eval vm_compute in ("<<<M1600>>>" ++ check (runes_of_ascii "
-// top
-packet 	 // c0
-	  MDSnapshotZZ {  // c2a
-
-// c2b
-	u8
-
-a
-	    // c4
-
-	,
-}  // c6
-
-packet  // c7a
-  // c7b
-
-OrderACK	// c8a
-
-// c8b
-    {	u16 b 
-// c11
-  ,  // c12a
-
-// c12b
-}	// c13
-    	packet 
-      // c14
-	HTTPServerInfo 
-{
-	// c16
-	string	s
-	    // c18
-  	,}
-root// c21a
-  // c21b
-  packet  // c22
-  FIXMsg// c23
-  {	// c24
-u8  // c25
-
-  KType
-    ,  MDSnapshotZZ
-	,
-
-    repeat	// c30a
-
-// c30b
-    OrderACK
-
-// c31
-
-  ,	// c32a
-  // c32b
-	match  
-  // c33
-  	KType 	 // c34a
-// c34b
-  as 
-    // c35
-	Body	// c36
-	{1
-    :  // c39
-
-HTTPServerInfo 	 // c40
-	, // c41
-    2 // c42
-	:	// c43
-  OrderACK  // c44a
-	// c44b
-    ,  // c45
-
-  } 	 // c46a
-    	// c46b
-  ,// c47a
-	// c47b
-    }	// c48a
-    // c48b
- 
-")).
-Eval vm_compute in ("<<<M193>>>" ++ check (runes_of_ascii "options {
-// c
-//x
-u128 = true ; Header // trailing space 
-= ""packet""
-    stringy =""CRC32"" A =
-    '0' ;} packet calculatedFrom  { repeat
-u128
-    Logon ,
-// packet A { u8 x, }
-// " ++ [128512]%N ++ runes_of_ascii " emoji
-}
-packet body { @calculatedFrom( ""\" ++ [233]%N ++ runes_of_ascii """
-)
-    metadata
-`a\`  ,
-// c
-// c
-stringy{
-    //	t
-    uint8 A `tab	here` , repeat
-    u
-    // `tick` ""quote"" 'q'
-    As
-, /// triple
-zchar[
-65535]x_y_z@lengthOf(
-crc ) //
-, }  , @calculatedFrom(
-    ""{,}"" )len /// triple
-@lengthOf(	roots ) ,char[  7 ]BodyLength`{ , }` ,
+    f64 crc,
+    @calculatedFrom(""x y"")
+    @tag(0)
+    @tag(65535)
+    int16 u128 @lengthOf(string_) `tab	here`,
+    char[0123456789] Foo @calculatedFrom(""CRC32""),
+    @calculatedFrom(""a\\"")
+    match T as msg_type {
+        [65535, ""x y"", 3, 255, 0] : T,
+        [""CRC32"", ""1"", 3, 10, 65535] : u,
+        4294967296 : a1,
+    },
+    crc `doc`,
+    @calculatedFrom(""" ++ [28040; 24687]%N ++ runes_of_ascii """)
     // c
-    int64
-    _x , @calculatedFrom(""it's""// " ++ [27880; 37322]%N ++ runes_of_ascii "
-) match
-pack as As { ""CRC32"": o
-    ,
-    } , zchar[ 4294967296]i64_@calculatedFrom( ""// no comment"" ) ,
+    @tag(42)
+    uint16 Foo,
 }
-")).
-Eval vm_compute in ("<<<M124>>>" ++ check (runes_of_ascii "packet
-crc// @lengthOf(
-{ @rightPad ( '0' ) char[7
-    // c
-    ]
-matchKey  @calculatedFrom( ""{,}"") , } packet x_y_z  {  @calculatedFrom( ""a\""b"" )
-T
-{ Header
-{
-    // packet A { u8 x, }
-    lengthOf
-packetx
-`// not a comment` ,A
-    i8i8 `crlf
-line` , string o `line1
-line2` ,
-string_ @lengthOf( tag ) `line1
-line2` , },
-    } ,
-match
-lengthOf as	Z9_ {
-""\" ++ [233]%N ++ runes_of_ascii """
-: A , }
-, match rootA as
-matchKey// `tick` ""quote"" 'q'
-{	[""`tick`""// @lengthOf(
-,""x y""
-] :  Packet, }
-, //x
-repeat zchar[
-    1 ]// a // b
-_x
-// " ++ [128512]%N ++ runes_of_ascii " emoji
-/// triple
-, char[]
-    msg_type , A rootA , } //")).
-Eval vm_compute in ("<<<M84>>>" ++ check (runes_of_ascii "MetaData
-    /// triple
-    Logon
-{zchar[
-    3 ] a1
-    `" ++ [28040; 24687; 31867; 22411]%N ++ runes_of_ascii "`
-    , char[ 007 ]
-MetaDataX `a\` ,
-}  root packet
-    pack { }
-packet
-    // trailing space 
-    i64_
-{  @lengthOf(chars
-)
-    len	{ uint8 rootA`doc` ,
-string_ `crlf
-line` //x
-, //	t
-match charz as
-Foo
-{
-    42 : options1 , [255
-    ]:charz
-    } , }, roots repeatCount
-    `two words` /// triple
-,
-    //	t
-    string Logon @calculatedFrom( ""a\""b"") , @calculatedFrom(// `tick` ""quote"" 'q'
-""a\\""	) Z9_
-    ,
-} //x")).
-Eval vm_compute in ("<<<M369>>>" ++ check (runes_of_ascii "
-MetaData
-// packet A { u8 x, }
-// @lengthOf(
-calculatedFrom {  zchar[
-    3 ] u8x
-, i32 o
-,
-    zchar[42
-//x
-// @lengthOf(
-]
-leftPad ,roots u
-//x
-//
-, }
-packet
-    trueish{ @leftPad
-    ( )asx
-    //	t
-    @lengthOf(
-i8i8
-) ,
-    @rightPad ( '\x00' )tag
-@lengthOf( Packet ) , Pad
-    // `tick` ""quote"" 'q'
-    options1 `doc` ,	@lengthOf(
-Header) match Z9_
+
+// " ++ [27880; 37322]%N ++ runes_of_ascii "
 // c
-/// triple
-as zchar
-{ 4294967296 : o ,
-    } ,  } /// triple")).
-Eval vm_compute in ("<<<M1202>>>" ++ check (runes_of_ascii "// top
-packet
-    // c0
-u128 // c1
-{ // c2
-@lengthOf(
-    // c3
-body // c4a
-  // c4b
-) // c5
-match // c6
-x_y_z // c7
-as
-    // c8
-u // c9
-{ // c10a
-  // c10b
-""x y"" : // c12a
-  // c12b
-i8i8 , // c14a
-  // c14b
-} // c15a
-  // c15b
-,
-    // c16
-@tag(
-    // c17
-255 // c18
-)
-    // c19
-char[] // c20
-roots // c21a
-  // c21b
-@lengthOf( int
-    // c23
-)
-    // c24
-, // c25
-} // c26
-")).
-Eval vm_compute in ("<<<M1911>>>" ++ check (runes_of_ascii "// top
-MetaData x_y_z {
-    // c2
-    char body,// c5
-    f64 i8i8 `two words`,// c9
-    body body `" ++ [28040; 24687; 31867; 22411]%N ++ runes_of_ascii "`,// c13
-}// c14
+root packet tag {
+    calculatedFrom `tab	here`,
+}
+
+packet metadata {
+    u64 uint8x @calculatedFrom(""// no comment""),
+}
 
 root packet chars {
-    // c18
-    @lengthOf(i64_)
-    // c21
-    chars,// c23
-    i8i8 {
-        // c25
-        falsey @lengthOf(stringy) `doc`,// c31
-    },// c33
-    x @lengthOf(A) `crlf
-    line`,// c39
-}// c40")).
-Eval vm_compute in ("<<<M314>>>" ++ check (runes_of_ascii "options
-{roots =3 leftPad
+    @tag(255)
+    @calculatedFrom(""\n"")
+    @lengthOf(Packet)
+    repeat options1 {
+        f32 MetaDataX @calculatedFrom(""a\""b""),
+        // c
+        /// triple
+        repeat char[0123456789] Foo,// packet A { u8 x, }
+        float32 charz @lengthOf(msg_type) `a\`,
+    },
+}")).
+Eval vm_compute in ("<<<M4305>>>" ++ check (runes_of_ascii "MetaData i64_ {
+    i32 lengthOf,
+}
+
+options {
+    Header = ' ';
+    MetaDataX = int16
+}
+
+options {
+    len = ' ';
+    f32a = ' ';
+    packetx = char[0123456789]
+    rootA = 00;
+    body = true;
+}
+
+packet x {
+    Z9_,
+    @rightPad()
+    @lengthOf(As)
+    int64 MetaDataX @calculatedFrom(""" ++ [233]%N ++ runes_of_ascii "t" ++ [233]%N ++ runes_of_ascii """),
+    Header @calculatedFrom(""{,}"") `crlf
+    line`,
+    @tag(3)
+    repeat x {
+        match u128 as options1 {
+            ""a\\"" : calculatedFrom,
+            [007, ""\n"", 0] : Z9_,
+            4294967296 : a1,
+            [
+                ""it's"", ""CRC32"", """ ++ [28040; 24687]%N ++ runes_of_ascii """, ""x y"", 65535,
+                7, 10, 007
+            ] : Z9_,
+            ["""", 3] : x_y_z,
+        },
+        f64 repeatCount @lengthOf(A) `tab	here`,// packet A { u8 x, }
+        charz `
+        `,
+    },
+    @calculatedFrom(""{,}"")
+    // 50% %s
+    // trailing space 
+    @tag(1)
+    char[] Header,
+    @lengthOf(falsey)
+    char[] Header,
+}
+
+packet a1 {
+    @calculatedFrom(""CRC32"")
+    uint16 A,
+    int8 packetx @calculatedFrom(""\n""),
+    T @calculatedFrom(""// no comment""),
+    repeat char[3] calculatedFrom,
+}")).
+Eval vm_compute in ("<<<M1212>>>" ++ check (runes_of_ascii "
+packet x_y_z {//x
+repeat Foo `crlf
+line` ,int64 f32a , match falsey as
+int  {// " ++ [27880; 37322]%N ++ runes_of_ascii "
+[
+    1
+    ]// 50% %s
+: Logon,  [
+    ""\n"" , ""// no comment"" ] : repeatCount , [ ""\" ++ [233]%N ++ runes_of_ascii """ ,""it's"", 3 ] : o	, 65535:repeatCount ,[ ""abc""
+    , ""abc""
+]
+    :
+    charz} , chars { repeat char[]
+    i64_, }, repeat i64_ o `" ++ [233]%N ++ runes_of_ascii "`
+    //x
+    ,	match uint8x as // a // b
+_x
+{
+    """ ++ [233]%N ++ runes_of_ascii "t" ++ [233]%N ++ runes_of_ascii """:BodyLength // 50% %s
+, ""x y""
+    : charz ,  [007
+]// 50% %s
+: charz
+,
+""it's""
+:// " ++ [128512]%N ++ runes_of_ascii " emoji
+MetaDataX  007
+    : u128	, /// triple
+[ 1	, // 50% %s
+""a\\"" ,65535 ,// 50% %s
+42 ,""a\""b""] : i8i8
+, }, //
+@leftPad(
+    ) match repeatCount as
+u8x
+{ [ ""it's"" ]
+: trueish
+    ,}
+    ,
+@lengthOf( //	t
+i8i8
+) int8
+// " ++ [128512]%N ++ runes_of_ascii " emoji
+// " ++ [27880; 37322]%N ++ runes_of_ascii "
+f32a @lengthOf( Header
+// @lengthOf(
+// `tick` ""quote"" 'q'
+) `u8 x,` // " ++ [128512]%N ++ runes_of_ascii " emoji
+,
+@lengthOf(
+    lengthOf// `tick` ""quote"" 'q'
+) /// triple
+@calculatedFrom(// c
+""" ++ [128512]%N ++ runes_of_ascii """// packet A { u8 x, }
+) char[] roots	,
+@calculatedFrom(""a	b""
+    ) @lengthOf( trueish) //	t
+@calculatedFrom(
+    ""CRC32"" )	repeat T { repeat  x T,},//x
+}")).
+Eval vm_compute in ("<<<M455>>>" ++ check (runes_of_ascii "MetaData
+    _x
+    { i32 leftPad `tab	here`,
+/// triple
+// a // b
+i16 x_y_z, i8 matchKey `
+` ,
+u16 options1 `a\` , Packet float
+, crc
+    As,}root
+    packet metadata { @tag(
+3 )
+    repeat char
+Packet
+    ,
+@tag( // @lengthOf(
+255
+) match u8x as
+leftPad {
+    [ 1 ,
+""\n""
+    ,
+""a\""b"" ]
+: stringy }
+, float @calculatedFrom(""\n""
+    ) `two words` ,repeat char[ 0123456789] Header, body {
+f32a`{ , }` , char[ 10 ]Pad
+    // 50% %s
+    @lengthOf( packetx )	`// not a comment` // `tick` ""quote"" 'q'
+,	match Header as crc {	[7 ]
+    : roots ,
+//x
+// a // b
+4294967296
+/// triple
+// " ++ [27880; 37322]%N ++ runes_of_ascii "
+:
+Header ,
+    255 :
+crc, 00
+: Z9_, 255
+    : Z9_ // a // b
+,
+[ 42,  255]  : repeatCount , } , leftPad // " ++ [128512]%N ++ runes_of_ascii " emoji
+{ repeat asx `
+`,
+float	, } ,/// triple
+} , }options {o = string	; }// a // b
+packet uint8x{ i16 A`// not a comment`	, float64 //x
+rootA `" ++ [233]%N ++ runes_of_ascii "` ,float64 // packet A { u8 x, }
+T @lengthOf( trueish )
+    , //x
+} // `tick` ""quote"" 'q'
+options{
+}")).
+Eval vm_compute in ("<<<M267>>>" ++ check (runes_of_ascii "packet i64_{ char[ 65535] _x , Logon @lengthOf(roots
+),
+char[ 7 ] len
+, @calculatedFrom(
+    ""packet"" )@tag(
+    00
+)
+match zchar as leftPad
+{
+255// c
+:MetaDataX """"
+:x ,
+[0123456789 ,// `tick` ""quote"" 'q'
+""x y"" ] :
+_x,
+    } , uint64 chars @lengthOf( // c
+roots ) ,
+    @calculatedFrom(
+    ""it's""
+    // c
+    )	@leftPad ( ) @lengthOf( leftPad ) match
+int
+as //	t
+zchar {
+[
+    4294967296
+    ]
+    :	len	1
+// a // b
+// " ++ [27880; 37322]%N ++ runes_of_ascii "
+: _x ,
+255
+:
+A
+// a // b
+/// triple
+,
+} ,
+@lengthOf(
+// a // b
+//	t
+int )
+char[] rootA /// triple
+,
+repeat _x // packet A { u8 x, }
+_x `{ , }` ,
+    // @lengthOf(
+    @lengthOf( Z9_ ) float64 string_ @lengthOf( crc ) ,	zchar[ 0
+] T `u8 x,`	, } root packet x
+{ T
+    // @lengthOf(
+    ,}
+    MetaData calculatedFrom// 50% %s
+{ char[]
+stringy
+,} options{ tag// packet A { u8 x, }
+= ""// no comment""
+Packet = zchar[
+7]
+    ;
+// a // b
+// a // b
+f32a  = '0'
+    ; }")).
+Eval vm_compute in ("<<<M1359>>>" ++ check (runes_of_ascii "packet chars
+    { // packet A { u8 x, }
+@lengthOf(
+T )
+    // trailing space 
+    zchar[ 1 ]
+    int `{ , }` ,
+@tag( 0 )
+    i8 //
+Packet
+,
+    } root packet
+trueish //x
+{	@calculatedFrom("""" )Z9_ Z9_ ,
+@rightPad (' ' // a // b
+)@calculatedFrom( // trailing space 
+""// no comment"" )
+@lengthOf( chars ) calculatedFrom , @lengthOf(
+falsey
+    )i8 A `" ++ [233]%N ++ runes_of_ascii "` ,match charz as Z9_ { 3 : o ,
+""\n"" : Logon ,7 : //x
+metadata , ""a\\"" : MetaDataX ""it's""
+//
+// @lengthOf(
+:// a // b
+leftPad, } , @lengthOf( leftPad)  string falsey // trailing space 
+,
+@lengthOf(
+    float ) pack rootA//	t
+, _x @calculatedFrom( ""\n"" )
+,@leftPad
+    ('\x00'  ) repeat
+    zchar[
+    3 ]  _x ,
+match
+    /// triple
+    a1
+    /// triple
+    as msg_type {
+0
+    :Pad
+} ,
+}options { _x
+= ""`tick`""
+    // packet A { u8 x, }
+    ;
+pack
+=
+string}root packet string_{ } // `tick` ""quote"" 'q'")).
+Eval vm_compute in ("<<<M4048>>>" ++ check (runes_of_ascii "packet uint8x {
+}
+
+packet metadata {
+}
+
+root packet float {
+    @tag(255)
+    uint8 u128 @calculatedFrom(""{,}"") `line1
+    line2`,
+    A @lengthOf(repeatCount),
+    A @calculatedFrom(""" ++ [28040; 24687]%N ++ runes_of_ascii """),
+    repeat Header {
+        repeat zchar[0] a1 `
+        `,
+        u8 calculatedFrom,
+        i8i8 {
+            // trailing space 
+            crc roots,
+            x_y_z,
+        },
+        repeat u32 A,
+    },
+    char[] float `a\`,
+    @lengthOf(string_)
+    match Foo as asx {
+        [0123456789, 65535, ""\" ++ [233]%N ++ runes_of_ascii """] : string_,
+        1 : int,
+        ""it's"" : packetx,
+        255 : Logon,
+        1 : i64_,
+        1 : calculatedFrom,
+    },
+    zchar[4294967296] metadata `// not a comment`,
+    // " ++ [128512]%N ++ runes_of_ascii " emoji
+    // a // b
+}
+
+options {
+    stringy = true;
+    matchKey = 00;
+    rootA = '0'
+    msg_type = '\x00';// a // b
+}")).
+Eval vm_compute in ("<<<M1027>>>" ++ check (runes_of_ascii "options
+{ u8x =
+    '0'  ; stringy = ""x y""	lengthOf= true //
+; //x
+_x = 007
+// trailing space 
+//
+A ='0'
+;
+} root packet
+stringy { repeat uint16
+    len `tab	here` , @tag( 7 )
+@calculatedFrom(	""" ++ [28040; 24687]%N ++ runes_of_ascii """ )i16
+// @lengthOf(
+// " ++ [128512]%N ++ runes_of_ascii " emoji
+msg_type
+    `
+`
+    , // a // b
+repeat repeatCount // trailing space 
+{ repeat pack // trailing space 
+msg_type `tab	here` , match
+repeatCount
+    as // trailing space 
+_x
+    { ""`tick`"" : trueish ,  [ ""\n"" ,
+65535 ,	255  , ""abc"" , 0123456789
+    ] :
+// c
+// " ++ [27880; 37322]%N ++ runes_of_ascii "
+options1 // c
+, } ,} ,@rightPad // @lengthOf(
+( ' '
+    )
+f64 Z9_,
+    int32 BodyLength// c
+`two words` ,	@calculatedFrom(""a\\""
+    )
+    char[
+255 ]// `tick` ""quote"" 'q'
+lengthOf	, f64 Foo ,char[1 ] // c
+Z9_	, repeat roots // packet A { u8 x, }
+uint8x	, } packet Header/// triple
+{ }
+")).
+Eval vm_compute in ("<<<M1046>>>" ++ check (runes_of_ascii "options { len= true; asx = 4294967296 Packet  = """ ++ [28040; 24687]%N ++ runes_of_ascii """ ;
+    o // " ++ [128512]%N ++ runes_of_ascii " emoji
+=' ' MetaDataX =true }
+    // packet A { u8 x, }
+    root// @lengthOf(
+packet body
+    { Packet{ repeat Logon T `u8 x,`
+, repeat
+char[00]
+metadata ,
+    } ,
+@lengthOf( i64_) repeat char[] tag
+, @tag(	7	)	f64 calculatedFrom ,// trailing space 
+T x
+    // " ++ [27880; 37322]%N ++ runes_of_ascii "
+    `crlf
+line`
+, float32 BodyLength
+@lengthOf(  falsey ) `two words` ,	@lengthOf(	u ) repeat
+    // a // b
+    char[]
+    body , // 50% %s
+@calculatedFrom( ""a\""b"" )
+    match u128 as Pad{ // trailing space 
+""\" ++ [233]%N ++ runes_of_ascii """ : float[7	] :Packet,
+// " ++ [27880; 37322]%N ++ runes_of_ascii "
+// " ++ [128512]%N ++ runes_of_ascii " emoji
+10 :i8i8
+    ,
+} , } MetaData packetx //	t
+{ // a // b
+matchKey i64_ `line1
+line2`,char[7] Foo `a\` , float32	Packet `a\`
+,float32 i8i8  `it's`
+, asx i8i8 ,	}
+")).
+Eval vm_compute in ("<<<M592>>>" ++ check (runes_of_ascii "packet
+options1
+    { }// c
+options { x_y_z = char[ 3
+]	; string_=
+    ""x y""
+    packetx = """ ++ [233]%N ++ runes_of_ascii "t" ++ [233]%N ++ runes_of_ascii """
+; }  packet len { // " ++ [128512]%N ++ runes_of_ascii " emoji
+repeat
+zchar[ 00 ]matchKey `u8 x,`, uint64 i8i8 ,
+rootA {match repeatCount
+as rootA {[
+0123456789 , 7
+    // 50% %s
+    ]	: u8x , } ,}
+//
+// `tick` ""quote"" 'q'
+, @calculatedFrom( """ ++ [28040; 24687]%N ++ runes_of_ascii """
+    )@calculatedFrom(	""abc"" )
+    char[ //
+10
+]
+    string_ @calculatedFrom(
+""\" ++ [233]%N ++ runes_of_ascii """ ) `doc` ,	@rightPad (
+'0' ) string
+    chars
+    @lengthOf(matchKey	),
+    repeat//	t
+u8
+    x_y_z	`line1
+line2` , }packet crc	{@lengthOf(
+tag
+//
+/// triple
+) match Header as float {
+    [ 0 , ""it's""  ,
+1, """ ++ [28040; 24687]%N ++ runes_of_ascii """
+, ""a	b"",
+3 ] :  lengthOf , 0123456789 :Z9_
+    ,} ,
+@calculatedFrom( ""1""	) i64_ u128 `
+`,
+}")).
+Eval vm_compute in ("<<<M1191>>>" ++ check (runes_of_ascii "packet pack	{ } root// `tick` ""quote"" 'q'
+packet msg_type { @calculatedFrom( ""abc""
+    ) //
+u8 Packet // `tick` ""quote"" 'q'
+@lengthOf(
+    body
+)
+    // a // b
+    , repeat u128	stringy ,
+    //
+    repeat
+// trailing space 
+//x
+float64 u8x
+``  , match metadata as//
+int{[ 4294967296 ,0123456789 ,	007
+,""" ++ [128512]%N ++ runes_of_ascii """
+,""1""
+    // packet A { u8 x, }
+    ] : x_y_z , 7
+    /// triple
+    : int , 007  :len """ ++ [28040; 24687]%N ++ runes_of_ascii """ : // 50% %s
+string_ ,}, repeat zchar[ 3
+    ] pack`two words`, @calculatedFrom(""x y"" ) char[007 ] x_y_z
+, zchar[ 10 ]
+// `tick` ""quote"" 'q'
+// " ++ [27880; 37322]%N ++ runes_of_ascii "
+u
+    @lengthOf( x
+    ) ,}  packet repeatCount{ string charz`it's`, }
+options { A
+= ""a\\""
+    crc =// c
+true ;
+crc =
+' '
+}
+")).
+Eval vm_compute in ("<<<M410>>>" ++ check (runes_of_ascii "MetaData x// a // b
+{ zchar[
+65535 ]
+    Pad /// triple
+, int16 chars`
+` ,
+char[]
+    // " ++ [27880; 37322]%N ++ runes_of_ascii "
+    pack
+,
+    BodyLength x
+,
+u8 metadata // `tick` ""quote"" 'q'
+,// " ++ [27880; 37322]%N ++ runes_of_ascii "
+f32 options1
+, } MetaData _x { f32a len , string u ,
+} packet body // packet A { u8 x, }
+{ @tag( 7) @rightPad( '\x00'
+) @lengthOf( uint8x  )
+    match
+float
+as string_
+    { ""abc""
+// a // b
+//x
+: stringy ,
+10: i8i8
+    ,
+}, @leftPad ( ' ' ) uint8 calculatedFrom @calculatedFrom( ""CRC32"" ) ,	@lengthOf( crc )u { match	chars as
+rootA
+// trailing space 
+/// triple
+{
+// `tick` ""quote"" 'q'
+// 50% %s
+007	: // " ++ [128512]%N ++ runes_of_ascii " emoji
+_x , ""\n"" : u
+,""abc""
+:
+calculatedFrom , }
+,} ,leftPad f32a , } 	 ")).
+Eval vm_compute in ("<<<M154>>>" ++ check (runes_of_ascii "//
+options	{}options { stringy
+    =  char[0123456789 ] stringy
+=  true	;  rootA
+=
+'0'; o = ""\n""
+    i8i8= char[] ; } root
+packet // " ++ [128512]%N ++ runes_of_ascii " emoji
+As { @calculatedFrom( """ ++ [233]%N ++ runes_of_ascii "t" ++ [233]%N ++ runes_of_ascii """ )@lengthOf(	packetx )
+// @lengthOf(
+// " ++ [128512]%N ++ runes_of_ascii " emoji
+u8
+    BodyLength @lengthOf( o )`two words` ,
+tag
+    ,  }	options  { matchKey
+    = char[ 1 ]
+} root packet  lengthOf{ @leftPad ( )int8	Z9_ ,  string float @lengthOf(// a // b
+i8i8 ) ,
+match
+lengthOf as chars
+{ [
+"""" ]	: x
+,1 :
+    roots
+, } , repeat  uint8 Foo , @tag( 007 ) u8x
+    { repeat chars falsey`line1
+line2`  ,
+msg_type @lengthOf( tag ), leftPad
+    Logon , }
+    ,
+string
+chars
+    , }")).
+Eval vm_compute in ("<<<M68>>>" ++ check (runes_of_ascii "packet// 50% %s
+Z9_ { roots @lengthOf(x_y_z) `tab	here` ,match u
+as
+i64_ { 007  : // " ++ [27880; 37322]%N ++ runes_of_ascii "
+a1 , 1
+/// triple
+// packet A { u8 x, }
+: asx , [ // `tick` ""quote"" 'q'
+""`tick`""  ,	""abc"" ,""it's""
+    , 42 ,""" ++ [233]%N ++ runes_of_ascii "t" ++ [233]%N ++ runes_of_ascii """
+    , ""it's""  , """"
+]
+    : u128 // " ++ [27880; 37322]%N ++ runes_of_ascii "
+, // packet A { u8 x, }
+1	: Logon // a // b
+, }
+,}
+packet
+//	t
+// packet A { u8 x, }
+Pad { //x
+@calculatedFrom( //x
+""`tick`""
+    ) u32 A @calculatedFrom( ""x y"" ) `two words` ,@tag( 007
+    )  @lengthOf( Pad) repeat
+asx
+,@lengthOf( Logon )@calculatedFrom( ""{,}"") @calculatedFrom(
+""abc"")
+u128,zchar[
+0
+]
+options1`" ++ [28040; 24687; 31867; 22411]%N ++ runes_of_ascii "`, } packet MetaDataX { }")).
+Eval vm_compute in ("<<<M1318>>>" ++ check (runes_of_ascii "packet f32a
+    { @leftPad (  '0')repeat  zchar[ //
+10 ] zchar //	t
+``
+, } MetaData u {
+    i32
+    // packet A { u8 x, }
+    asx, i64
+    /// triple
+    string_
+    `it's` , Pad
+metadata
+, } packet As {
+@tag( // " ++ [128512]%N ++ runes_of_ascii " emoji
+10
+    )zchar[ 10
+]leftPad , @calculatedFrom( ""a\""b"" )
+    // trailing space 
+    @lengthOf(
+// trailing space 
+//	t
+Header )
+@calculatedFrom(
+    ""\" ++ [233]%N ++ runes_of_ascii """
+)char[
+// @lengthOf(
+//
+007
+] matchKey @lengthOf(u128 )
+    `100% of %d`
+    ,int
+@calculatedFrom( ""`tick`"") `a\`//x
+,f64 o ,
+    } MetaData	o { uint16
+    // " ++ [128512]%N ++ runes_of_ascii " emoji
+    matchKey ,
+}")).
+Eval vm_compute in ("<<<M1367>>>" ++ check (runes_of_ascii "// packet A { u8 x, }
+packet MetaDataX { @lengthOf(  packetx
+//x
+// a // b
+)
+u32 float
+, @tag(
+3  ) @calculatedFrom( ""a\\""
+)
+    @lengthOf(// packet A { u8 x, }
+zchar ) asx
+@lengthOf(
+x )
+    , match
+    // a // b
+    int
+as
+falsey {[// 50% %s
+10,  4294967296
+,  ""{,}"" ,
+    ""// no comment""
+    ] : Pad , ""`tick`"" : msg_type
+    ,
+    4294967296:
+u128 ,
+    ""// no comment""	: trueish , [ 3
+    ] :
+Foo  }
+, }
+    root packet Logon { @lengthOf(	x  ) @rightPad ( ' ' ) // trailing space 
+string asx @lengthOf(	packetx
+    )
+,  stringy ,}
+")).
+Eval vm_compute in ("<<<M344>>>" ++ check (runes_of_ascii "options { a1 = false  ; }packet tag
+    {
+@tag( 3
+)i8 chars , }
+    options{Foo =// packet A { u8 x, }
+int8 ;
+    } packet // `tick` ""quote"" 'q'
+uint8x { float64 i64_
+    @calculatedFrom( ""\n"") ,@rightPad (
+    )zchar[ 0]
+string_ , match // 50% %s
+x /// triple
+as metadata
+    // @lengthOf(
+    { 42 : u128 , [""`tick`"" ,10] :tag
+    ""CRC32"": x, ""{,}""
+: matchKey
+, }	, }
+packet roots {  @rightPad ( '0' ) uint32
+u8x @calculatedFrom(// `tick` ""quote"" 'q'
+""abc"" ) , match
+// `tick` ""quote"" 'q'
+// c
+i8i8 as i64_ {0 :T ,
+},
+}
+")).
+Eval vm_compute in ("<<<M191>>>" ++ check (runes_of_ascii "
+root packet lengthOf
+{ @tag( 007 )	@leftPad ( ' ' ) @tag( 10 ) i64_ @calculatedFrom( ""it's"" ) `it's`
+    // `tick` ""quote"" 'q'
+    , @lengthOf( i8i8
+    // `tick` ""quote"" 'q'
+    ) @tag(
+    3) @tag(
+    1
+    // 50% %s
+    ) zchar[ 7 ]
+    _x @lengthOf(trueish )  `// not a comment`
+    , zchar[  65535] trueish ,
+@lengthOf(MetaDataX ) @calculatedFrom( ""CRC32"" )int64 rootA ,
+    } options{ falsey
+    =
+    // `tick` ""quote"" 'q'
+    '0' ; } options { Header
+    =zchar[
+255 ] ; matchKey = 7 ; }
+")).
+Eval vm_compute in ("<<<M452>>>" ++ check (runes_of_ascii "packet
+    Logon {
+match len as u { [ ""{,}""
+,0] :Pad , [ 7 , ""1""	]
+:calculatedFrom [ // trailing space 
+4294967296, // 50% %s
+""abc"",0 , ""CRC32""	, ""abc"" ] : chars
+// c
+// `tick` ""quote"" 'q'
+, """"  :
+repeatCount,
+}
+/// triple
+// " ++ [27880; 37322]%N ++ runes_of_ascii "
+, @rightPad
+( '\x00' )msg_type	{ match
+len as Pad
+    // " ++ [27880; 37322]%N ++ runes_of_ascii "
+    { [
+""packet"" ] :string_
+    ,	} ,
+    char[0 ] int ,
+}
+    , }
+    packet trueish// " ++ [27880; 37322]%N ++ runes_of_ascii "
+{	@calculatedFrom( """ ++ [28040; 24687]%N ++ runes_of_ascii """ )  @leftPad( ) @leftPad (
+    ' '
+    ) repeat char Logon , }")).
+Eval vm_compute in ("<<<M198>>>" ++ check (runes_of_ascii "// " ++ [27880; 37322]%N ++ runes_of_ascii "
+MetaData body
+{}packet charz {
+    char[] packetx @calculatedFrom(""\n"" ) `" ++ [28040; 24687; 31867; 22411]%N ++ runes_of_ascii "` ,
+@leftPad (  ' ')metadata`// not a comment`
+    // 50% %s
+    , //	t
+@lengthOf(/// triple
+chars )
+// c
+//x
+@tag( 007 ) @rightPad ( // trailing space 
+' ' )
+    A chars, calculatedFrom @calculatedFrom(
+    ""a\\"" ), @rightPad (  '\x00' )
+i64
+    i8i8 `say ""hi""`
+// packet A { u8 x, }
+// " ++ [128512]%N ++ runes_of_ascii " emoji
+,
+i8 crc @calculatedFrom( ""abc"" )
+`// not a comment`
+    ,
+}
+// " ++ [27880; 37322]%N ++ runes_of_ascii "
+")).
+Eval vm_compute in ("<<<M744>>>" ++ check (runes_of_ascii "root packet int { repeat float64 // " ++ [27880; 37322]%N ++ runes_of_ascii "
+string_ , @leftPad(
+    '\x00' ) char[1	] crc ,
+As , u16 float
+`{ , }`// @lengthOf(
+,
+@calculatedFrom(	""x y""  )
+// packet A { u8 x, }
+//
+float32 zchar,	len	{asx @calculatedFrom( ""`tick`""	)`line1
+line2`,}
+,
+match Header
+as u { [ // trailing space 
+""" ++ [233]%N ++ runes_of_ascii "t" ++ [233]%N ++ runes_of_ascii """, 007
+    ] : repeatCount ,
+// 50% %s
+// a // b
+}
+    ,
+string
+calculatedFrom
+@lengthOf(matchKey ) // packet A { u8 x, }
+,
+} // @lengthOf(")).
+Eval vm_compute in ("<<<M1200>>>" ++ check (runes_of_ascii "packet matchKey { } packet //	t
+chars { @lengthOf(	calculatedFrom
+)
+@lengthOf( T ) metadata { matchKey @lengthOf( packetx )`say ""hi""`	, repeat string o ,
+float  {
+    repeat u128
+// @lengthOf(
+// packet A { u8 x, }
+{chars	`100% of %d` , i64
+    //x
+    falsey @calculatedFrom( ""packet""
+    ) , metadata@calculatedFrom( """ ++ [28040; 24687]%N ++ runes_of_ascii """ ) `u8 x,`//x
+, zchar[ 007 ] trueish , } ,} // `tick` ""quote"" 'q'
+,// @lengthOf(
+} ,
+    //
+    }")).
+Eval vm_compute in ("<<<M376>>>" ++ check (runes_of_ascii "// " ++ [128512]%N ++ runes_of_ascii " emoji
+packet
+    uint8x {}options { T
+= false ; }	packet MetaDataX {int64 string_
+, char[
+    // packet A { u8 x, }
+    00 ] Foo `line1
+line2`
+// trailing space 
+// trailing space 
+, _x Packet`u8 x,`
+    /// triple
+    ,
+    @leftPad
+()// c
+repeat zchar[0 ]
+pack
+//
+// @lengthOf(
+, @lengthOf(
+falsey) // c
+uint8
+    metadata , }
+packet
+pack
+    { char[ 0123456789 ] T@calculatedFrom(	""\" ++ [233]%N ++ runes_of_ascii """ ) ,
+    }
+")).
+Eval vm_compute in ("<<<M3699>>>" ++ check (runes_of_ascii "
+MetaData 
+stringy{zchar[  7
+    ] x_y_z
+
+    , zchar[ 007
+	]
+	A ,
+
+string  As  `
+` , }
+root packet
+    tag{
+	@leftPad
+	(
+)
+
+    match // " ++ [27880; 37322]%N ++ runes_of_ascii "
+	_x
+	as
+    _x
+
+{ 255: 
+    // a // b
+	  // " ++ [27880; 37322]%N ++ runes_of_ascii "
+	  chars , 10:
+
+    roots
+
+    ,3
+:
+	Foo
+
+    ,
+[  ""{,}""
+    , 
+    //x
+// @lengthOf(
+	  ""packet""]  :  u
+,
+        //x
+
+//
+00:
+
+    x_y_z
+	,
+	1	:
+
+i64_	,
+	} 
+
+    // 50% %s
+
+  ,}
+")).
+Eval vm_compute in ("<<<M4031>>>" ++ check (runes_of_ascii "packet chars {
+    @rightPad(' ')
+    uint8 Foo,
+    @lengthOf(uint8x)
+    string string_,
+    int16 MetaDataX,
+}
+
+packet body {
+    i64_ @calculatedFrom(""" ++ [128512]%N ++ runes_of_ascii """) `tab	here`,
+    repeat char[00] int `crlf
+        line`,
+    @calculatedFrom(""`tick`"")
+    i8 i8i8 @calculatedFrom(""a	b""),
+    uint32 chars,
+}// " ++ [27880; 37322]%N ++ runes_of_ascii "
+
+MetaData packetx {
+    calculatedFrom Header,
+}
+
+packet x_y_z {
+}")).
+Eval vm_compute in ("<<<M1291>>>" ++ check (runes_of_ascii "root packet lengthOf{	@calculatedFrom(
+""`tick`"" )
+    char[
+7]rootA@lengthOf(// trailing space 
+msg_type ) `line1
+line2` , }
+    packet Pad{ f32	i64_
+, @calculatedFrom( //x
+""{,}""
+) char[] leftPad @calculatedFrom( ""CRC32""
+    ) ,}MetaData Pad{ f32
+x , float32 rootA , _x
+    A `line1
+line2`
+    ,zchar[ // 50% %s
+10] // trailing space 
+u128
+, u Header,} // c")).
+Eval vm_compute in ("<<<M797>>>" ++ check (runes_of_ascii "MetaData T { char[]	options1`say ""hi""` ,
+    } MetaData lengthOf
+    { zchar[ 7] _x
+,
+} options { len
+=
+i32 ; //x
+pack = '\x00' ;
+// `tick` ""quote"" 'q'
+// `tick` ""quote"" 'q'
+tag  = true;
+    u8x = 00
+; msg_type
+    =	""a\\"" }
+    packet
+trueish
+{ calculatedFrom `tab	here`
+, } packet crc
+{ repeat falsey {repeat // " ++ [27880; 37322]%N ++ runes_of_ascii "
+chars`crlf
+line`
+    ,} , }
+")).
+Eval vm_compute in ("<<<M4291>>>" ++ check (runes_of_ascii "  root  packet zchar
+{ @calculatedFrom( 
+""x y"")
+f32 u// @lengthOf(
+
+	@lengthOf( _x) ,} options
+{
+Foo
+= string	falsey =
+""\n""//x
+
+  ;	calculatedFrom
+
+=
+	char[
+42
+] roots
+	=	string ;
+}
+packet
+    int
+{ @tag(	10 ) 
+@calculatedFrom( """"
+) 
+metadata,  }
+
+    options
+	{ 
+packetx=
+
+    '\x00';_x 
+=
+
+    ""packet""
+
+    ;
+    }
+")).
+Eval vm_compute in ("<<<M122>>>" ++ check (runes_of_ascii "options {
+Header
+    = float32
+; charz =true ;
+falsey =
+// a // b
+// 50% %s
+""// no comment"" len=// @lengthOf(
+' ' A
+    = true
+; }packet
+i64_
+{
+    repeat string float  `" ++ [233]%N ++ runes_of_ascii "`// a // b
+, f64 T
+    @lengthOf(chars // packet A { u8 x, }
+) `100% of %d` , msg_type @lengthOf( calculatedFrom
+) `{ , }`
+// " ++ [128512]%N ++ runes_of_ascii " emoji
+// " ++ [27880; 37322]%N ++ runes_of_ascii "
+, }
+")).
+Eval vm_compute in ("<<<M1068>>>" ++ check (runes_of_ascii "root packet tag  {
+    u32// @lengthOf(
+charz , @tag( 65535 ) @calculatedFrom(
+""`tick`""  ) T @lengthOf(
+chars) // 50% %s
+, @tag( 4294967296 )
+    // @lengthOf(
+    match
+    calculatedFrom as BodyLength  {
+    4294967296 :
+uint8x , [ ""abc""
+    , ""a\""b"" //	t
+,""{,}""
+,
+3] : u8x , """ ++ [28040; 24687]%N ++ runes_of_ascii """
+    : x
+    , } , }
+")).
+Eval vm_compute in ("<<<M4071>>>" ++ check (runes_of_ascii "root packet zchar {
+    @calculatedFrom(""x y"")
+    f32 u @lengthOf(_x),
+}
+
+options {
+    Foo = string
+    falsey = ""\n"";
+    calculatedFrom = char[42]
+    roots = string;
+}
+
+packet int {
+    @tag(10)
+    @calculatedFrom("""")
+    metadata,
+}
+
+options {
+    packetx = '\x00';
+    _x = ""packet"";
+}")).
+Eval vm_compute in ("<<<M1246>>>" ++ check (runes_of_ascii "packet falsey {  @lengthOf( lengthOf ) a1 , }  packet int
+    { }packet stringy
+    //x
+    { } root
+packet
+    i8i8 { @rightPad// `tick` ""quote"" 'q'
+('\x00'  )
+@lengthOf(string_
+) @lengthOf( matchKey
 /// triple
 // c
-= string	; packetx =	false ; zchar
-= true options1 = false ;
-    } MetaData
-    string_ {i32 x_y_z
-    ,char[ 4294967296
-] zchar`two words`
-, // c
-char[ 42 ] metadata
-, }packet _x {
-    int8 rootA`doc` ,
-    } options
-{ lengthOf =
-    ""// no comment"" } 	 ")).
-Eval vm_compute in ("<<<M1407>>>" ++ check (runes_of_ascii "packet FooBar
-    // c1
+) zchar[
+    255 ]/// triple
+x_y_z	@lengthOf( float ) `tab	here` , }")).
+Eval vm_compute in ("<<<M1997>>>" ++ check (runes_of_ascii "packet	packetx { // trailing space 
+x_y_z
 {
+string
+charz ,
+string x// @lengthOf(
+`two words`
+    ,  u8x { // `tick` ""quote"" 'q'
+charz `100% of %d` // packet A { u8 x, }
+,}// " ++ [27880; 37322]%N ++ runes_of_ascii "
+,} , }
+    // a // b
+    packet metadata {  @leftPad ( '0') repeat i32 i32 options1 ,u64 uint8x , }
+")).
+Eval vm_compute in ("<<<M1987>>>" ++ check (runes_of_ascii "packet	packetx { // trailing space 
+x_y_z
+{
+string
+charz ,
+string x// @lengthOf(
+`two words`
+    ,  u8x { // `tick` ""quote"" 'q'
+charz `100% of %d` // packet A { u8 x, }
+,}// " ++ [27880; 37322]%N ++ runes_of_ascii "
+,} , }
+    // a // b
+    packet metadata {  @leftPad ( '0') ) repeat i32 options1 ,u64 uint8x , }
+")).
+Eval vm_compute in ("<<<M1913>>>" ++ check (runes_of_ascii "packet	packetx { // trailing space 
+x_y_z
+{
+string
+charz ,
+string x// @lengthOf(
+`two words`
+    ,  u8x charz // `tick` ""quote"" 'q'
+{ `100% of %d` // packet A { u8 x, }
+,}// " ++ [27880; 37322]%N ++ runes_of_ascii "
+,} , }
+    // a // b
+    packet metadata {  @leftPad ( '0') repeat i32 options1 ,u64 uint8x , }
+")).
+Eval vm_compute in ("<<<M1891>>>" ++ check (runes_of_ascii "packet	packetx { // trailing space 
+x_y_z
+{
+string
+charz ,
+string // @lengthOf(
+`two words`
+    ,  u8x { // `tick` ""quote"" 'q'
+charz `100% of %d` // packet A { u8 x, }
+,}// " ++ [27880; 37322]%N ++ runes_of_ascii "
+,} , }
+    // a // b
+    packet metadata {  @leftPad ( '0') repeat i32 options1 ,u64 uint8x , }
+")).
+Eval vm_compute in ("<<<M2019>>>" ++ check (runes_of_ascii "packet	packetx { // trailing space 
+x_y_z
+{
+string
+charz ,
+string x// @lengthOf(
+`two words`
+    ,  u8x { // `tick` ""quote"" 'q'
+charz `100% of %d` // packet A { u8 x, }
+,}// " ++ [27880; 37322]%N ++ runes_of_ascii "
+,} , }
+    // a // b
+    packet metadata {  @leftPad ( '0') repeat i32 options1 ,u64 i32 , }
+")).
+Eval vm_compute in ("<<<M3972>>>" ++ check (runes_of_ascii "// top
+MetaData body {
     // c2
-u8 // c3
-a
-    // c4
-, } // c6
-packet // c7
-foo_bar {
-    // c9
-u16 // c10a
-  // c10b
-b // c11a
-  // c11b
-, // c12a
-  // c12b
-} root // c14a
-  // c14b
-packet // c15
-R
-    // c16
-{ FooBar // c18
-, // c19
-foo_bar , // c21
-} // c22
-")).
-Eval vm_compute in ("<<<M297>>>" ++ check (runes_of_ascii "
-packet As
-{
-} MetaData Logon { i16 falsey
-`a\` // `tick` ""quote"" 'q'
-, } MetaData T { f64 uint8x `u8 x,` , // " ++ [128512]%N ++ runes_of_ascii " emoji
-char[	00 // @lengthOf(
-] T , char[
-    0
-    ]
-Pad
-// c
-// c
-`crlf
-line` , char[]
-    f32a ,
-char[] asx
-    , } //	t")).
-Eval vm_compute in ("<<<M432>>>" ++ check (runes_of_ascii "options
-{
-matchKey = 42/// triple
-x='0' ;
-// packet A { u8 x, }
-//
-charz charz
-=
-// packet A { u8 x, }
-// trailing space 
-true  ; } MetaData BodyLength
-{
-uint8
-pack,zchar[ 1]float ,  float32 x_y_z `` ,u32
-_x,i16 body  , }
-")).
-Eval vm_compute in ("<<<M392>>>" ++ check (runes_of_ascii "options
-{ {
-matchKey = 42/// triple
-x='0' ;
-// packet A { u8 x, }
-//
-charz
-=
-// packet A { u8 x, }
-// trailing space 
-true  ; } MetaData BodyLength
-{
-uint8
-pack,zchar[ 1]float ,  float32 x_y_z `` ,u32
-_x,i16 body  , }
-")).
-Eval vm_compute in ("<<<M498>>>" ++ check (runes_of_ascii "options
-{
-matchKey = 42/// triple
-x='0' ;
-// packet A { u8 x, }
-//
-charz
-=
-// packet A { u8 x, }
-// trailing space 
-true  ; } MetaData BodyLength
-{
-uint8
-pack,zchar[ 1 float] ,  float32 x_y_z `` ,u32
-_x,i16 body  , }
-")).
-Eval vm_compute in ("<<<M473>>>" ++ check (runes_of_ascii "options
-{
-matchKey = 42/// triple
-x='0' ;
-// packet A { u8 x, }
-//
-charz
-=
-// packet A { u8 x, }
-// trailing space 
-true  ; } MetaData BodyLength
-{
-pack
-uint8,zchar[ 1]float ,  float32 x_y_z `` ,u32
-_x,i16 body  , }
-")).
-Eval vm_compute in ("<<<M561>>>" ++ check (runes_of_ascii "options
-{
-matchKey = 42/// triple
-x='0' ;
-// packet A { u8 x, }
-//
-charz
-=
-// packet A { u8 x, }
-// trailing space 
-true  ; } MetaData BodyLength
-{
-uint8
-pack,zchar[ 1]float ,  float32 x_y_z `` ,u32
-_x,i16 body  , 
-")).
-Eval vm_compute in ("<<<M1879>>>" ++ check (runes_of_ascii "options {
-    matchKey = 42/// triple
-    x = '0';
-    // packet A { u8 x, }
-    //
-    charz = true;
 }
 
-MetaData BodyLength {
-    uint8 pack,
-    zchar[1] float,
-    float32 x_y_z ``,
-    u32 _x,
-    i16 body,
+// c3
+root packet chars {
+    // c7
+    @lengthOf(i64_)
+    // c10
+    chars,
+    // c12
+    i8i8 {
+        // c14
+        falsey @lengthOf(stringy) ``,
+        // c20
+    },
+    // c22
+    x @lengthOf(A) `tab	here`,
+    // c28
+}
+// c29")).
+Eval vm_compute in ("<<<M2135>>>" ++ check (runes_of_ascii "packet// packet A { u8 x, }
+repeatCount	{// packet A { u8 x, }
+@leftPad ( '\x00'
+) repeat u8x MetaDataX `crlf
+line`,
+    repeat
+    char[] MetaDataX
+    ,
+u64	uint8x uint8x@calculatedFrom(""a\""b""
+// c
+// packet A { u8 x, }
+) `tab	here`
+,//
+}MetaData pack
+    {
+    }
+")).
+Eval vm_compute in ("<<<M1504>>>" ++ check (runes_of_ascii "packet calculatedFrom
+{ @calculatedFrom( ""a\\"" ) zchar[ 4294967296 ]
+calculatedFrom@lengthOf( pack )	`100% of %d` ,char[]body@calculatedFrom( ""// no comment"" ""// no comment"" )  ,
+@tag( 007) //x
+int8
+leftPad`it's` , repeat pack
+    { repeat char[ 3] body
+,},
 }")).
-Eval vm_compute in ("<<<M155>>>" ++ check (runes_of_ascii "packet pack
-    { @calculatedFrom(
-""CRC32""
-) i8i8 { MetaDataX @lengthOf( x
-//x
+Eval vm_compute in ("<<<M2200>>>" ++ check (runes_of_ascii "packet// packet A { u8 x, }
+repeatCount	{// packet A { u8 x, }
+@leftPad ( '\x00'
+) repeat u8x MetaDataX `crlf
+line`,?
+    repeat
+    char[] MetaDataX
+    ,
+u64	uint8x@calculatedFrom(""a\""b""
+// c
 // packet A { u8 x, }
-), char As @lengthOf( len	) ,
-// " ++ [128512]%N ++ runes_of_ascii " emoji
-//x
-chars metadata `say ""hi""` , char[ 0] int ,}, }
+) `tab	here`
+,//
+}MetaData pack
+    {
+    }
 ")).
-Eval vm_compute in ("<<<M1942>>>" ++ check (runes_of_ascii "root packet stringy {
-    charz T `u8 x,`,
-    char tag,
-    uint64 u128,
-}
-
-options {
-    x = '0'// `tick` ""quote"" 'q'
-    rootA = ""CRC32"";// " ++ [27880; 37322]%N ++ runes_of_ascii "
-    i64_ = ""a\\"";
-}
-
-options {
-}
-// " ++ [27880; 37322]%N)).
-Eval vm_compute in ("<<<M711>>>" ++ check (runes_of_ascii "// c
-packet i64_ {	char[] calculatedFrom , } packet
-trueish  {@calculatedFrom(
-""a\\"" ) o { i32 falsey@lengthOf( uint8x ),
-} , } // `tick` ""quote"" 'q'
-options {// c
-Z9_ = }//
-' '
+Eval vm_compute in ("<<<M2116>>>" ++ check (runes_of_ascii "packet// packet A { u8 x, }
+repeatCount	{// packet A { u8 x, }
+@leftPad ( '\x00'
+) repeat u8x MetaDataX `crlf
+line`,
+    repeat
+    MetaDataX char[]
+    ,
+u64	uint8x@calculatedFrom(""a\""b""
+// c
+// packet A { u8 x, }
+) `tab	here`
+,//
+}MetaData pack
+    {
+    }
 ")).
-Eval vm_compute in ("<<<M1752>>>" ++ check (runes_of_ascii "
-packet
-rootA// packet A { u8 x, }
-    {tag`u8 x,`
-	, char[]
+Eval vm_compute in ("<<<M1464>>>" ++ check (runes_of_ascii "packet calculatedFrom
+{ @calculatedFrom( ""a\\"" ) zchar[ 4294967296 ]
+calculatedFrom@lengthOf( @lengthOf( pack )	`100% of %d` ,char[]body@calculatedFrom( ""// no comment"" )  ,
+@tag( 007) //x
+int8
+leftPad`it's` , repeat pack
+    { repeat char[ 3] body
+,},
+}")).
+Eval vm_compute in ("<<<M2114>>>" ++ check (runes_of_ascii "packet// packet A { u8 x, }
+repeatCount	{// packet A { u8 x, }
+@leftPad ( '\x00'
+) repeat u8x MetaDataX `crlf
+line`,
+    repeat
+     MetaDataX
+    ,
+u64	uint8x@calculatedFrom(""a\""b""
+// c
+// packet A { u8 x, }
+) `tab	here`
+,//
+}MetaData pack
+    {
+    }
+")).
+Eval vm_compute in ("<<<M1524>>>" ++ check (runes_of_ascii "packet calculatedFrom
+{ @calculatedFrom( ""a\\"" ) zchar[ 4294967296 ]
+calculatedFrom@lengthOf( pack )	`100% of %d` ,char[]body@calculatedFrom( ""// no comment"" )  ,
+@tag( 007 007) //x
+int8
+leftPad`it's` , repeat pack
+    { repeat char[ 3] body
+,},
+}")).
+Eval vm_compute in ("<<<M1596>>>" ++ check (runes_of_ascii "packet calculatedFrom
+{ @calculatedFrom( ""a\\"" ) zchar[ 4294967296 ]
+calculatedFrom@lengthOf( pack )	`100% of %d` ,char[]body@calculatedFrom( ""// no comment"" )  ,
+@tag( 007) //x
+int8
+leftPad`it's` , repeat pack
+    { repeat char[ 3] body
+' '},
+}")).
+Eval vm_compute in ("<<<M4284>>>" ++ check (runes_of_ascii "MetaData
 
-    o ,
-    i8i8 @lengthOf( 
-    // @lengthOf(
+string_
+    {char[ 255
+	] msg_type	`crlf
+line` ,
+
+}	packet As{
+	a1
+
+`u8 x,`
+    ,
+i8i8
+    , 
+@tag(
+00)
+
+    char[ // c
+  0
+    ]
 stringy
 
-    )
-
-`// not a comment`
-, 
-	    // " ++ [128512]%N ++ runes_of_ascii " emoji
-  }
-")).
-Eval vm_compute in ("<<<M1512>>>" ++ check (runes_of_ascii "
-
-  packet 
-A{ 
-match	k as
-n  {
-    [1
-	,""bb""	,007 
-, 
-""d""
-
 ,
-    5
-
-    ,
-	""f"" ,
-
-7
-,""h""
-,
-
-    9  ,""j"", 11
-,
-""l""
-
-]:
-	B
-
-    2:
-
-C}
-    ,
-
-    }
-
-")).
-Eval vm_compute in ("<<<M1522>>>" ++ check (runes_of_ascii "MetaData
-falsey {  i64	A	// " ++ [27880; 37322]%N ++ runes_of_ascii "
-	,
-string
-
-    Header , zchar[ 10 ]
-
-Foo `" ++ [28040; 24687; 31867; 22411]%N ++ runes_of_ascii "`
-    // @lengthOf(
-    ,packetx
-body , 
-f32a
-MetaDataX
-	`it's`,}")).
-Eval vm_compute in ("<<<M627>>>" ++ check (runes_of_ascii "MetaData
-    // trailing space 
-    matchKey
-{ u64 chars // a // b
-,char[] lengthOf `// not a comment` `// not a comment`
-    , //	t
-}")).
-Eval vm_compute in ("<<<M1673>>>" ++ check (runes_of_ascii "
-packet
-Logon { @tag( 42  )  @rightPad  (
-' ' )
-
-@leftPad
-
-    ()
-
-    repeat
-    trueish {
-string
-    T  ,}
-	,
-// c
-	}
-
-")).
-Eval vm_compute in ("<<<M450>>>" ++ check (runes_of_ascii "options
+    }// @lengthOf(
+options
 {
-matchKey = 42/// triple
-x='0' ;
-// packet A { u8 x, }
+    lengthOf 
 //
-charz
-=
-// packet A { u8 x, }
-// trailing space 
-true")).
-Eval vm_compute in ("<<<M646>>>" ++ check (runes_of_ascii "MetaData
-    // trailing space 
-    matchKey
-{ u64 ? chars // a // b
-,char[] lengthOf `// not a comment`
-    , //	t
+	//	t
+      =
+int64
+} MetaData	u128
+
+{  }
+
+")).
+Eval vm_compute in ("<<<M1550>>>" ++ check (runes_of_ascii "packet calculatedFrom
+{ @calculatedFrom( ""a\\"" ) zchar[ 4294967296 ]
+calculatedFrom@lengthOf( pack )	`100% of %d` ,char[]body@calculatedFrom( ""// no comment"" )  ,
+@tag( 007) //x
+int8
+leftPad`it's` repeat , pack
+    { repeat char[ 3] body
+,},
 }")).
-Eval vm_compute in ("<<<M603>>>" ++ check (runes_of_ascii "MetaData
-    // trailing space 
-    matchKey
-{ chars u64 // a // b
-,char[] lengthOf `// not a comment`
-    , //	t
+Eval vm_compute in ("<<<M1608>>>" ++ check (runes_of_ascii "packet calculatedFrom
+{ @calculatedFrom( ""a\\"" ) zchar[ 4294967296 ]
+calculatedFrom@lengthOf( pack )	`100% of %d` ,char[]body@calculatedFrom( ""// no comment"" )  ,
+@tag( 007) //x
+int8
+leftPad`it's` , repeat pack
+    { repeat char[ 3] body
+,},
+")).
+Eval vm_compute in ("<<<M1546>>>" ++ check (runes_of_ascii "packet calculatedFrom
+{ @calculatedFrom( ""a\\"" ) zchar[ 4294967296 ]
+calculatedFrom@lengthOf( pack )	`100% of %d` ,char[]body@calculatedFrom( ""// no comment"" )  ,
+@tag( 007) //x
+int8
+leftPad{ , repeat pack
+    { repeat char[ 3] body
+,},
 }")).
-Eval vm_compute in ("<<<M1599>>>" ++ check (runes_of_ascii "options {
-    pack = 0
+Eval vm_compute in ("<<<M1501>>>" ++ check (runes_of_ascii "packet calculatedFrom
+{ @calculatedFrom( ""a\\"" ) zchar[ 4294967296 ]
+calculatedFrom@lengthOf( pack )	`100% of %d` ,char[]body f32 ""// no comment"" )  ,
+@tag( 007) //x
+int8
+leftPad`it's` , repeat pack
+    { repeat char[ 3] body
+,},
+}")).
+Eval vm_compute in ("<<<M1403>>>" ++ check (runes_of_ascii "MetaData MetaDataX {string_
+    body`crlf
+line`,uint8//x
+int , zchar[
+    // `tick` ""quote"" 'q'
+    3
+// `tick` ""quote"" 'q'
+//	t
+] body ,
+    } MetaData
+    x_y_z //	t
+{
+lengthOf rootA`" ++ [28040; 24687; 31867; 22411]%N ++ runes_of_ascii "`
+,
+    zchar[ 4294967296 ]_x ,	}
+")).
+Eval vm_compute in ("<<<M2030>>>" ++ check (runes_of_ascii "packet	packetx { // trailing space 
+x_y_z
+{
+string
+charz ,
+string x// @lengthOf(
+`two words`
+    ,  u8x { // `tick` ""quote"" 'q'
+charz `100% of %d` // packet A { u8 x, }
+,}// " ++ [27880; 37322]%N ++ runes_of_ascii "
+,} , }
+    // a // b
+    packet m")).
+Eval vm_compute in ("<<<M3825>>>" ++ check (runes_of_ascii "packet repeatCount {
+    // packet A { u8 x, }
+    @leftPad('\x00')
+    u8x MetaDataX `crlf
+    line`,
+    repeat char[] MetaDataX,
+    u64 uint8x @calculatedFrom(""a\""b"") `tab	here`,//
 }
 
-MetaData int {
-    char[00] T `crlf
-    line`,
-    i8 string_,//	t
-    int16 matchKey,
+MetaData pack {
 }")).
-Eval vm_compute in ("<<<M639>>>" ++ check (runes_of_ascii "MetaData
-    // trailing space 
-    matchKey
-{ u64 chars // a // b
-,char[] lengthOf `// not a comment`
-    ,")).
-Eval vm_compute in ("<<<M907>>>" ++ check (runes_of_ascii "packet A {
-  match k as n {
-    [1, ""bb"", 007, ""d"", 5, ""f"", 7, ""h"", 9, ""j"", 11, ""l""] : B,
-    2 : C
-  },
-}")).
-Eval vm_compute in ("<<<M1260>>>" ++ check (runes_of_ascii "packet calculatedFrom { @tag(
-// c
-4294967296 ) u msg_type , char[ 3 ] crc @lengthOf( len ) `u8 x,` , }")).
-Eval vm_compute in ("<<<M1840>>>" ++ check (runes_of_ascii "
-options 
-{
-LittleEndian
-    =
-    true;} root
-packet P { 
+Eval vm_compute in ("<<<M977>>>" ++ check (runes_of_ascii "root
+    packet
+MetaDataX	{ @lengthOf( falsey)repeat
+    asx //x
+,  matchKey `` , //x
+repeat float64 BodyLength `` ,	string packetx , repeat	uint16 // " ++ [27880; 37322]%N ++ runes_of_ascii "
+matchKey	,
+    zchar[ 42
+    ] crc ,	}
+")).
+Eval vm_compute in ("<<<M3485>>>" ++ check (runes_of_ascii "// top
+root
+    // c0
+packet // c1
+P
+    // c2
+{ u8 // c4
+s_u8 // c5
+, // c6a
+  // c6b
 repeat
+    // c7
+u8 // c8a
+  // c8b
+r_u8 // c9
+, // c10a
+  // c10b
+u16 // c11
+b_len , // c13
+} // c14
+")).
+Eval vm_compute in ("<<<M759>>>" ++ check (runes_of_ascii "
+MetaData
+/// triple
+//
+falsey {
+u64// c
+stringy ,  asx
+    T
+, u16 f32a
+// " ++ [27880; 37322]%N ++ runes_of_ascii "
+// " ++ [128512]%N ++ runes_of_ascii " emoji
+, BodyLength tag`line1
+line2` ,
+    u T , // 50% %s
+int64
+    repeatCount ,// @lengthOf(
+}
+")).
+Eval vm_compute in ("<<<M4342>>>" ++ check (runes_of_ascii "packet
+	msg_type
+    {
 
-char cs
+    a1	@lengthOf( body
 
-    , u8 x
-
+    )	`crlf
+line`
+,zchar[ 
+7
+    ] BodyLength
+// 50% %s
+	// @lengthOf(
+	  @lengthOf(
+Logon
+	) , 
+i16 
+charz//	t
+  ,
+}
+")).
+Eval vm_compute in ("<<<M3775>>>" ++ check (runes_of_ascii "options {
+    // trailing space 
+    // `tick` ""quote"" 'q'
+    u128 = false;
+    Pad = false;
+    BodyLength = char[]
+    body = true
+    u = ' '
+}// packet A { u8 x, }")).
+Eval vm_compute in ("<<<M1522>>>" ++ check (runes_of_ascii "packet calculatedFrom
+{ @calculatedFrom( ""a\\"" ) zchar[ 4294967296 ]
+calculatedFrom@lengthOf( pack )	`100% of %d` ,char[]body@calculatedFrom( ""// no comment"" )  ,")).
+Eval vm_compute in ("<<<M1675>>>" ++ check (runes_of_ascii "options { } packet Packet{char[] i64_ string_
+@tag(
+    255) match
+crc as i8i8{""{,}"" : trueish """" : Pad , ""a\\"" :
+Foo ,
+    1 :packetx
+, """ ++ [128512]%N ++ runes_of_ascii """ : trueish , } , }")).
+Eval vm_compute in ("<<<M2415>>>" ++ check (runes_of_ascii "
+packet MetaDataX
+{
+    @leftPad
+( // a // b
+'0'
+) i8 u @lengthOf(
+MetaDataX
+    ) `say ""hi""` ,	} MetaData BodyLength {
+    asx
+x_y_z `" ++ [233]%N ++ runes_of_ascii "`
+, uint64 u128 , , }
+")).
+Eval vm_compute in ("<<<M1780>>>" ++ check (runes_of_ascii "options { } packet Packet{char[] i64_ ,
+@tag(
+    255) match
+crc as i8i8{""{,}"" : trueish """" : Pad , ""a\\"" :
+Foo ,
+    1 f32 packetx
+, """ ++ [128512]%N ++ runes_of_ascii """ : trueish , } , }")).
+Eval vm_compute in ("<<<M1730>>>" ++ check (runes_of_ascii "options { } packet Packet{char[] i64_ ,
+@tag(
+    255) match
+crc as i8i8{""{,}"" : @rightPad """" : Pad , ""a\\"" :
+Foo ,
+    1 :packetx
+, """ ++ [128512]%N ++ runes_of_ascii """ : trueish , } , }")).
+Eval vm_compute in ("<<<M406>>>" ++ check (runes_of_ascii "MetaData metadata {f32 crc `" ++ [233]%N ++ runes_of_ascii "`
+, f64 Pad ,
+    //	t
+    zchar asx
 ,
-
+    }
+root packet
+uint8x { }packet
+Logon { // trailing space 
+} packet float {
     }
 ")).
-Eval vm_compute in ("<<<M2020>>>" ++ check (runes_of_ascii "
-
-  packet
-A{  match 
-k as
-    n {  [ 1
-
-, 
-22 
-,  007,
-
-4	,
-
-5] :
-	B,
-    2
-    : C}
+Eval vm_compute in ("<<<M1674>>>" ++ check (runes_of_ascii "options { } packet Packet{char[] i64_ @tag(
 ,
+    255) match
+crc as i8i8{""{,}"" : trueish """" : Pad , ""a\\"" :
+Foo ,
+    1 :packetx
+, """ ++ [128512]%N ++ runes_of_ascii """ : trueish , } , }")).
+Eval vm_compute in ("<<<M1824>>>" ++ check (runes_of_ascii "options { } packet Packet{char[] i64_ ,
+@tag(
+    255) match
+crc as i8i8{""{,}"" : trueish """" : Pad , ""a\\"" :
+Foo ,
+    1 :packetx
+, """ ++ [128512]%N ++ runes_of_ascii """ : trueish , } , ;")).
+Eval vm_compute in ("<<<M2350>>>" ++ check (runes_of_ascii "
+packet char[
+{
+    @leftPad
+( // a // b
+'0'
+) i8 u @lengthOf(
+MetaDataX
+    ) `say ""hi""` ,	} MetaData BodyLength {
+    asx
+x_y_z `" ++ [233]%N ++ runes_of_ascii "`
+, uint64 u128 , }
+")).
+Eval vm_compute in ("<<<M1697>>>" ++ check (runes_of_ascii "options { } packet Packet{char[] i64_ ,
+@tag(
+    255) match
+ as i8i8{""{,}"" : trueish """" : Pad , ""a\\"" :
+Foo ,
+    1 :packetx
+, """ ++ [128512]%N ++ runes_of_ascii """ : trueish , } , }")).
+Eval vm_compute in ("<<<M250>>>" ++ check (runes_of_ascii "packet
+    BodyLength{zchar[
+007 ] rootA ``,repeat string // " ++ [128512]%N ++ runes_of_ascii " emoji
+u128 `say ""hi""` , As {
+    int32
+    //x
+    options1 @lengthOf(Logon) ,
+} , }")).
+Eval vm_compute in ("<<<M1211>>>" ++ check (runes_of_ascii "options
+    // a // b
+    {
+string_='0' ; Foo// @lengthOf(
+=true
+lengthOf = """" ;	string_ =u16 } options { body
+    =' '	} options { chars =	42 }")).
+Eval vm_compute in ("<<<M373>>>" ++ check (runes_of_ascii "MetaData // " ++ [27880; 37322]%N ++ runes_of_ascii "
+u8x { trueish
+int ,} MetaData o { char[ 1	]	trueish ,zchar[ 255
+    ]
+    Pad ,	int16 MetaDataX  ,
+    } packet packetx{	}
 
-    } ")).
-Eval vm_compute in ("<<<M1138>>>" ++ check (runes_of_ascii "packet Logon { @tag( 42 // c
-) @rightPad ( ' ' ) @leftPad ( ) repeat trueish { string T , } , }")).
-Eval vm_compute in ("<<<M1170>>>" ++ check (runes_of_ascii "packet Logon { @tag( 42 ) @rightPad ( ' ' ) @leftPad ( ) repeat trueish { string T , } , // c
-}")).
-Eval vm_compute in ("<<<M1836>>>" ++ check (runes_of_ascii "packet As {
-    int16 A,
-}
-
-packet u {
-    @lengthOf(Pad)
-    f64 metadata @lengthOf(a1),
-}")).
-Eval vm_compute in ("<<<M935>>>" ++ check (runes_of_ascii "packet A {
-    B b `a
-    b
-  c`,
-    B `a
-    b
-  c`,
-    repeat B bs `a
-    b
-  c`,
-}")).
-Eval vm_compute in ("<<<M1500>>>" ++ check (runes_of_ascii "packet A {
-    match k as n {
-        // b
-        1 : B,
-        // f
-    },// h
-}")).
-Eval vm_compute in ("<<<M1221>>>" ++ check (runes_of_ascii "packet o { @tag( 42 ) repeat
+")).
+Eval vm_compute in ("<<<M4537>>>" ++ check (runes_of_ascii "
 // c
-x { char[ 0123456789 ] i64_ , } , } options { }")).
-Eval vm_compute in ("<<<M68>>>" ++ check (runes_of_ascii "options { stringy=""x y""  ;
-chars
-=true Logon = string crc = true Logon
-= char }")).
-Eval vm_compute in ("<<<M819>>>" ++ check (runes_of_ascii "packet A {
+  MetaData
+float
+    {
+uint8	BodyLength  ,}
+	MetaData 
+charz {
+float32
+    trueish `a\` 
+, i16 metadata
+
+    `say ""hi""`
+,}
+")).
+Eval vm_compute in ("<<<M1079>>>" ++ check (runes_of_ascii "options{// 50% %s
+roots =3 _x
+=
+    false
+    len  = """ ++ [28040; 24687]%N ++ runes_of_ascii """
+// " ++ [27880; 37322]%N ++ runes_of_ascii "
+// " ++ [128512]%N ++ runes_of_ascii " emoji
+rootA  =
+    true  ; } MetaData chars { }
+    options {}")).
+Eval vm_compute in ("<<<M3075>>>" ++ check (runes_of_ascii "packet A {
+    Inner {
+        u8 x `100% of %s %d %v`,
+        Deep {
+            u8 y `100% of %s %d %v`,
+        },
+    },
+}")).
+Eval vm_compute in ("<<<M3276>>>" ++ check (runes_of_ascii "MetaData metadata { } MetaData rootA { i8 // c
+i64_ , roots options1 `a\` , lengthOf Header , Z9_ Foo , int16 BodyLength , }")).
+Eval vm_compute in ("<<<M3822>>>" ++ check (runes_of_ascii "options {
+    FixedStringPadFromLeft = true;
+}// c6a
+
+// c6b
+root packet P {
+    // c10a
+    // c10b
+    char[4] z,
+}
+// c16")).
+Eval vm_compute in ("<<<M276>>>" ++ check (runes_of_ascii "options
+{x =
+    true ;rootA
+// " ++ [128512]%N ++ runes_of_ascii " emoji
+//x
+=float32;
+    } // @lengthOf(
+MetaData
+    u8x	{ } // packet A { u8 x, }")).
+Eval vm_compute in ("<<<M1487>>>" ++ check (runes_of_ascii "packet calculatedFrom
+{ @calculatedFrom( ""a\\"" ) zchar[ 4294967296 ]
+calculatedFrom@lengthOf( pack )	`100% of %d`")).
+Eval vm_compute in ("<<<M3032>>>" ++ check (runes_of_ascii "packet A {
+    u16 len @lengthOf(body) `a
+b`,
+    u32 crc @calculatedFrom(""CRC32"") `a
+b`,
+    string body,
+}")).
+Eval vm_compute in ("<<<M3347>>>" ++ check (runes_of_ascii "MetaData float { uint8 BodyLength , } MetaData charz { float32 trueish `a\` , i16
+// c
+metadata `say ""hi""` , }")).
+Eval vm_compute in ("<<<M2235>>>" ++ check (runes_of_ascii "MetaData _x {string x `// not a comment` `// not a comment` , string
+i64_ // trailing space 
+`a\` ,
+    }
+")).
+Eval vm_compute in ("<<<M2103>>>" ++ check (runes_of_ascii "packet// packet A { u8 x, }
+repeatCount	{// packet A { u8 x, }
+@leftPad ( '\x00'
+) repeat u8x MetaDataX")).
+Eval vm_compute in ("<<<M2975>>>" ++ check (runes_of_ascii "packet A {
   match k as n {
-    [""a"", 22, ""c c"", 4, ""e""] : B
+    [""a"", ""bb"", ""c c"", ""d"", ""e"", ""f"", ""g"", ""h"", ""i""] : B
     2 : C
   },
 }")).
-Eval vm_compute in ("<<<M41>>>" ++ check (runes_of_ascii "MetaData// " ++ [128512]%N ++ runes_of_ascii " emoji
-charz
-{zchar[
-    42] packetx
-    `crlf
-line` , } 	 ")).
-Eval vm_compute in ("<<<M620>>>" ++ check (runes_of_ascii "MetaData
-    // trailing space 
-    matchKey
-{ u64 chars // a // b
-,")).
-Eval vm_compute in ("<<<M294>>>" ++ check (runes_of_ascii "
-packet
-    //x
-    MetaDataX { repeat rootA `two words` //x
-,//
+Eval vm_compute in ("<<<M1014>>>" ++ check (runes_of_ascii "
+packet i64_{
+    // packet A { u8 x, }
+    } MetaData
+zchar
+    { _x msg_type
+, // @lengthOf(
 }")).
-Eval vm_compute in ("<<<M252>>>" ++ check (runes_of_ascii "packet
-f32a { //
-@tag( 1 )  Z9_ chars ,chars// " ++ [128512]%N ++ runes_of_ascii " emoji
-`
-`, }
+Eval vm_compute in ("<<<M1905>>>" ++ check (runes_of_ascii "packet	packetx { // trailing space 
+x_y_z
+{
+string
+charz ,
+string x// @lengthOf(
+`two words`")).
+Eval vm_compute in ("<<<M2287>>>" ++ check (runes_of_ascii "MetaData _x {string caf" ++ [233]%N ++ runes_of_ascii "_1 `// not a comment` , string
+i64_ // trailing space 
+`a\` ,
+    }
 ")).
-Eval vm_compute in ("<<<M1344>>>" ++ check (runes_of_ascii "root packet P {
-    hdr {
-        u8 a,
-    },
-    u8 x,
+Eval vm_compute in ("<<<M1736>>>" ++ check (runes_of_ascii "options { } packet Packet{char[] i64_ ,
+@tag(
+    255) match
+crc as i8i8{""{,}"" : trueish")).
+Eval vm_compute in ("<<<M2283>>>" ++ check (runes_of_ascii "MetaData _x {string x `// not a comment` , string
+i64_ // trailing space 
+`a\` ,
+  ?  }
+")).
+Eval vm_compute in ("<<<M2986>>>" ++ check (runes_of_ascii "packet A {
+  match k as n {
+    [1, 22, 007, 4, 5, 66, 7, 8, 9, 10] : B
+    2 : C
+  },
+}")).
+Eval vm_compute in ("<<<M58>>>" ++ check (runes_of_ascii "
+packet falsey { @lengthOf(
+MetaDataX ) @tag( 65535) repeat _x
+    { Logon ,	}
+, }
+")).
+Eval vm_compute in ("<<<M694>>>" ++ check (runes_of_ascii "MetaData x
+    { u16
+Header`` , char[]charz , float32 o, matchKey f32a
+`{ , }` ,}")).
+Eval vm_compute in ("<<<M2955>>>" ++ check (runes_of_ascii "packet A {
+  match k as n {
+    [1, 22, ""c c"", 4, 5, ""f"", 7] : B
+    2 : C
+  },
+}")).
+Eval vm_compute in ("<<<M1322>>>" ++ check (runes_of_ascii "  options { Foo	= u64
+A = """"
+; packetx
+=
+    ""`tick`"" float = ' '
+} /// triple")).
+Eval vm_compute in ("<<<M3392>>>" ++ check (runes_of_ascii "MetaData _x { f64 charz `tab	here` , } options { BodyLength = """ ++ [233]%N ++ runes_of_ascii "t" ++ [233]%N ++ runes_of_ascii """ ; } // c
+")).
+Eval vm_compute in ("<<<M3380>>>" ++ check (runes_of_ascii "MetaData _x { f64 charz `tab	here` , } options // c
+{ BodyLength = """ ++ [233]%N ++ runes_of_ascii "t" ++ [233]%N ++ runes_of_ascii """ ; }")).
+Eval vm_compute in ("<<<M2928>>>" ++ check (runes_of_ascii "packet A {
+  match k as n {
+    [1, 22, ""c c"", 4, 5] : B,
+    2 : C
+  },
+}")).
+Eval vm_compute in ("<<<M2915>>>" ++ check (runes_of_ascii "packet A {
+  match k as n {
+    [1, 22, ""c c"", 4] : B,
+    2 : C
+  },
+}")).
+Eval vm_compute in ("<<<M2810>>>" ++ check (runes_of_ascii "zchar[ i64 } match uint64 f64 { u8 @leftPad root @rightPad ] options")).
+Eval vm_compute in ("<<<M3616>>>" ++ check (runes_of_ascii "  packet 
+A 
+{match
+k	as n{
+[
+""a""	, ""bb""] : B,
+
+    2: C
+
+},  } ")).
+Eval vm_compute in ("<<<M3031>>>" ++ check (runes_of_ascii "packet A {
+    B b `a
+b`,
+    B `a
+b`,
+    repeat B bs `a
+b`,
+}")).
+Eval vm_compute in ("<<<M815>>>" ++ check (runes_of_ascii "root// `tick` ""quote"" 'q'
+packet Z9_
+{	repeat
+    Foo
+A `
+`	,}")).
+Eval vm_compute in ("<<<M360>>>" ++ check (runes_of_ascii "packet //	t
+i64_ {
+    @tag( 0123456789	) repeat zchar ,
+}")).
+Eval vm_compute in ("<<<M2850>>>" ++ check (runes_of_ascii "char[] ""a	b"" @lengthOf( u64 ' ' ; ; ""1"" int16 @leftPad u64")).
+Eval vm_compute in ("<<<M412>>>" ++ check (runes_of_ascii "  packet u128 {
+zchar[
+10 ] Z9_
+    // " ++ [128512]%N ++ runes_of_ascii " emoji
+    , }
+")).
+Eval vm_compute in ("<<<M2325>>>" ++ check (runes_of_ascii "
+MetaData Pad{
+u32 rootA `line1
+line2` ,
+    repeat
+")).
+Eval vm_compute in ("<<<M3985>>>" ++ check (runes_of_ascii "MetaData T {
+    zchar[0] u,
+    int16 float,
+}// c")).
+Eval vm_compute in ("<<<M2343>>>" ++ check (runes_of_ascii "
+MetaDat?a Pad{
+u32 rootA `line1
+line2` ,
+    }
+")).
+Eval vm_compute in ("<<<M720>>>" ++ check (runes_of_ascii "MetaData metadata { char[ 007	]u128
+`it's` , }
+")).
+Eval vm_compute in ("<<<M2401>>>" ++ check (runes_of_ascii "
+packet MetaDataX
+{
+    @leftPad
+( // a // b")).
+Eval vm_compute in ("<<<M2730>>>" ++ check (runes_of_ascii "@lengthOf( 65535 i8i8 match ""CRC32"" ( { i16")).
+Eval vm_compute in ("<<<M3194>>>" ++ check (runes_of_ascii "packet A {
+    u8 x,    // c    u8 y,
+}")).
+Eval vm_compute in ("<<<M3248>>>" ++ check (runes_of_ascii "MetaData zchar { zchar[ 3 ] Pad ,
+// c
+}")).
+Eval vm_compute in ("<<<M829>>>" ++ check (runes_of_ascii "MetaData o {	char[]	trueish
+    ,
 }
 ")).
-Eval vm_compute in ("<<<M1092>>>" ++ check (runes_of_ascii "packet A { repeat // a
- B // b
- b // c
- `d` // e
- , }")).
-Eval vm_compute in ("<<<M956>>>" ++ check (runes_of_ascii "MetaData M {
-    u8 x `
-x`,
-    T t `
-x`,
-}")).
-Eval vm_compute in ("<<<M1113>>>" ++ check (runes_of_ascii "MetaData zchar { zchar[ 3
-// c
-] Pad , }")).
-Eval vm_compute in ("<<<M1080>>>" ++ check (runes_of_ascii "options { a = 1; // a
+Eval vm_compute in ("<<<M3209>>>" ++ check (runes_of_ascii "options { a = 1; // a
  b = 2 // b
  }")).
-Eval vm_compute in ("<<<M1756>>>" ++ check (runes_of_ascii "packet
-A 
-{
-u8 x	`tab
-	x`
-, 
-}")).
-Eval vm_compute in ("<<<M1032>>>" ++ check (runes_of_ascii "packet A {
- u8 x `d" ++ [11]%N ++ runes_of_ascii "`, // c" ++ [11]%N ++ runes_of_ascii "
-}")).
-Eval vm_compute in ("<<<M1733>>>" ++ check (runes_of_ascii "
+Eval vm_compute in ("<<<M2611>>>" ++ check (runes_of_ascii "packet A { x @calculatedFrom(c), }")).
+Eval vm_compute in ("<<<M3609>>>" ++ check (runes_of_ascii "
 
-  packet
-A { }  // c" ++ [8232]%N ++ runes_of_ascii "
+  // c 	
+		packet  A
+	{
+    }
 ")).
-Eval vm_compute in ("<<<M1301>>>" ++ check (runes_of_ascii "packet lengthOf {
-// c
-}")).
-Eval vm_compute in ("<<<M1041>>>" ++ check (runes_of_ascii "// c 	
-packet A {
-}")).
-Eval vm_compute in ("<<<M1031>>>" ++ check (runes_of_ascii "// c" ++ [11]%N ++ runes_of_ascii "
-packet A {
-}")).
-Eval vm_compute in ("<<<M1043>>>" ++ check (runes_of_ascii "packet A {
-}// c" ++ [8203]%N)).
-Eval vm_compute in ("<<<M595>>>" ++ check (runes_of_ascii "MetaData")).
-Eval vm_compute in ("<<<M732>>>" ++ check (runes_of_ascii "
+Eval vm_compute in ("<<<M3858>>>" ++ check (runes_of_ascii "
 
-
+  options {
+zchar=
+	int16	}
 ")).
+Eval vm_compute in ("<<<M2813>>>" ++ check (runes_of_ascii "rMUk*A>l`;2<.8)t3:<`;p_.3=FP+")).
+Eval vm_compute in ("<<<M2777>>>" ++ check (runes_of_ascii "ZpPv$s#MrAf![OE.=2y';iR )8<")).
+Eval vm_compute in ("<<<M146>>>" ++ check (runes_of_ascii "root packet  len { }
+//x
+")).
+Eval vm_compute in ("<<<M2725>>>" ++ check (runes_of_ascii "ANbn)|=FCixSWaV'0rWXX#|z")).
+Eval vm_compute in ("<<<M51>>>" ++ check (runes_of_ascii "// " ++ [128512]%N ++ runes_of_ascii " emoji
+ // 50% %s")).
+Eval vm_compute in ("<<<M4426>>>" ++ check (runes_of_ascii "// trailing space 
+")).
+Eval vm_compute in ("<<<M220>>>" ++ check (runes_of_ascii "packet As {
+    }
+")).
+Eval vm_compute in ("<<<M3164>>>" ++ check (runes_of_ascii "packet A {
+}
+// c" ++ [12]%N)).
+Eval vm_compute in ("<<<M2809>>>" ++ check (runes_of_ascii "tK@iBN>|GC|wnb}Pz")).
+Eval vm_compute in ("<<<M2680>>>" ++ check (runes_of_ascii "options { = 1; }")).
+Eval vm_compute in ("<<<M2650>>>" ++ check (runes_of_ascii "packet A { } ;")).
+Eval vm_compute in ("<<<M87>>>" ++ check (runes_of_ascii "
+// a // b
+")).
+Eval vm_compute in ("<<<M2501>>>" ++ check (runes_of_ascii "@leftPad(")).
+Eval vm_compute in ("<<<M2478>>>" ++ check (runes_of_ascii "strings")).
+Eval vm_compute in ("<<<M3188>>>" ++ check (runes_of_ascii "// c x")).
+Eval vm_compute in ("<<<M3128>>>" ++ check (runes_of_ascii "// c" ++ [8192]%N)).
+Eval vm_compute in ("<<<M2562>>>" ++ check (runes_of_ascii "[[]]")).
+Eval vm_compute in ("<<<M2553>>>" ++ check (runes_of_ascii "a_b")).
+Eval vm_compute in ("<<<M2703>>>" ++ check (runes_of_ascii "		")).
